@@ -12,2581 +12,1001 @@ Definition show_fres (r : fres) : string :=
   end.
 Definition check (rs : list rune) : string := digest (show_fres (format_res rs)).
 Definition full (rs : list rune) : string := show_fres (format_res rs).
-Eval vm_compute in ("<<<M439>>>" ++ check (runes_of_ascii "/// triple
-packet
-string_{
-char[] calculatedFrom
-    ,string	rootA	`two words` ,  @tag(
-    10 // " ++ [128512]%N ++ runes_of_ascii " emoji
-)@lengthOf( packetx ) char[] falsey
-    ,// @lengthOf(
-int8 MetaDataX @calculatedFrom(""CRC32"" )
-    `two words`
-, zchar[
-    7
-]float
-    ,  uint32 calculatedFrom,
-    matchKey {
-zchar[ 10 ]u
-@calculatedFrom( ""a\\""
-// `tick` ""quote"" 'q'
-// " ++ [27880; 37322]%N ++ runes_of_ascii "
-)
-,
-// " ++ [27880; 37322]%N ++ runes_of_ascii "
-// packet A { u8 x, }
-} , @calculatedFrom( ""1"" )int16 rootA , float64 uint8x
-    // " ++ [27880; 37322]%N ++ runes_of_ascii "
-    ,
-    // " ++ [128512]%N ++ runes_of_ascii " emoji
-    } packet u8x{@calculatedFrom( ""CRC32"" ) repeat //x
-u64 u8x // packet A { u8 x, }
-`a\` , } // trailing space 
-packet
-    Packet	{ @calculatedFrom(
-""packet""
-) repeat
-len i64_
-,
-@lengthOf(trueish
-)
-@lengthOf(u )
-    // a // b
-    @lengthOf( A
-) char[] zchar`say ""hi""`
-// " ++ [128512]%N ++ runes_of_ascii " emoji
-//
-,
-    @calculatedFrom(""{,}"" )	chars@calculatedFrom( ""{,}""	)
-    ,repeat
-//	t
-// @lengthOf(
-pack lengthOf , // `tick` ""quote"" 'q'
-}
-//x
-// " ++ [27880; 37322]%N ++ runes_of_ascii "
-packet
-i64_{ calculatedFrom
-{ stringy {
-zchar[
-    // c
-    1  ] tag , match
-    float as _x  { ""it's"" : Packet ,
-[	0123456789 ,// c
-4294967296
-,""1"", 00, 42 ] :Foo , [""a\\""  , 42 //x
-, 255 ,""`tick`"" , 3 , """ ++ [128512]%N ++ runes_of_ascii """ ] :pack , // @lengthOf(
-4294967296
-    :
-    pack,
-[ 0123456789 , """ ++ [28040; 24687]%N ++ runes_of_ascii """ ,
-""{,}"",
-/// triple
-// " ++ [27880; 37322]%N ++ runes_of_ascii "
-4294967296 ,""packet"", ""x y"" , // packet A { u8 x, }
-""x y""	]//	t
-: uint8x  ,
-    } , } ,
-} //
-,@tag(00)
-BodyLength ,@calculatedFrom(""a	b"" )match msg_type
-as Foo { [ ""\n""
-, 42,
-42 ]
-: Pad , } , u64
-packetx `" ++ [233]%N ++ runes_of_ascii "`
-// packet A { u8 x, }
-//x
-,repeat
-i64 tag
-,
-//x
-// @lengthOf(
-@tag( 65535 // `tick` ""quote"" 'q'
-)
-    @lengthOf(
-    // `tick` ""quote"" 'q'
-    Pad
-    ) match matchKey as f32a
-{3 :  BodyLength ,[//	t
-""" ++ [128512]%N ++ runes_of_ascii """ , ""packet""  ,
-    65535 ,255 , ""a	b""
-, 0 , //	t
-007 //	t
-] : /// triple
-u8x ,4294967296
-//x
-// a // b
-: As 007 :i64_
-    ""it's"":lengthOf, ""\" ++ [233]%N ++ runes_of_ascii """ :	u8x , },  rootA
-    // c
-    { f32 Packet@lengthOf(A ), i32 repeatCount
-@calculatedFrom( ""x y""	)
-//x
-// c
-, repeatCount
-    @calculatedFrom(
-""" ++ [233]%N ++ runes_of_ascii "t" ++ [233]%N ++ runes_of_ascii """) // trailing space 
-`" ++ [28040; 24687; 31867; 22411]%N ++ runes_of_ascii "`,
-    char[] Packet, }, @lengthOf( body
-)
-@tag(65535 )	@calculatedFrom(""\" ++ [233]%N ++ runes_of_ascii """ )metadata @lengthOf( uint8x
-    ) ,
-    }packet i64_ { match o as
-    asx { ""`tick`""
-    : charz
-    }
-//	t
-// trailing space 
-,
-    }
-")).
-Eval vm_compute in ("<<<M3791>>>" ++ check (runes_of_ascii "packet metadata {
-    zchar[10] i64_ `say ""hi""`,
-    repeat Header uint8x,
-    @lengthOf(falsey)
-    int8 _x @calculatedFrom(""x y"") `{ , }`,
-    stringy metadata `a\`,// " ++ [128512]%N ++ runes_of_ascii " emoji
-    @lengthOf(Packet)
-    i64_ {
-        match crc as Header {
-            [0, 0123456789] : Foo,
-            ""abc"" : pack,
-        },
-        match int as charz {
-            1 : packetx,
-            7 : MetaDataX,
-            // " ++ [128512]%N ++ runes_of_ascii " emoji
-            7 : a1,
-            007 : zchar,
-            ""CRC32"" : stringy,
-            [""\" ++ [233]%N ++ runes_of_ascii """, ""CRC32""] : i8i8,
-        },
-        pack `doc`,
-        tag {
-            _x @calculatedFrom(""CRC32"") `
-            `,
-            repeat asx `{ , }`,
-            i32 _x @calculatedFrom(""\n"") `u8 x,`,
-        },
-    },
-    f32a @lengthOf(chars),
-    string Packet,
-    @leftPad(' ')
-    @lengthOf(u8x)
-    // trailing space 
-    a1 @calculatedFrom(""x y"") `doc`,
-    options1,
-    body `{ , }`,
-}
-
-MetaData Foo {
-    uint8 Z9_ `{ , }`,
-}
-
-packet Header {
-    pack {
-        // trailing space 
-        leftPad {
-            u128 i64_,
-            zchar[7] i64_ @calculatedFrom(""packet"") `line1
-            line2`,//
-            metadata Logon,
-            char[10] asx @lengthOf(uint8x) `it's`,
-        },
-    },
-    @calculatedFrom(""a\\"")
-    Logon @lengthOf(uint8x) `
-    `,
-    int64 msg_type,
-    metadata _x,
-    @leftPad()
-    trueish {
-        Header {
-            //x
-            // `tick` ""quote"" 'q'
-            uint8x {
-                char[0123456789] leftPad @calculatedFrom(""" ++ [233]%N ++ runes_of_ascii "t" ++ [233]%N ++ runes_of_ascii """) `" ++ [28040; 24687; 31867; 22411]%N ++ runes_of_ascii "`,
-            },// " ++ [128512]%N ++ runes_of_ascii " emoji
-            char[1] asx @calculatedFrom(""it's""),
-            roots,
-        },
-    },
-    zchar[255] Packet,// `tick` ""quote"" 'q'
-    repeat i8i8,
-    repeat float64 u8x,
-    @calculatedFrom(""" ++ [233]%N ++ runes_of_ascii "t" ++ [233]%N ++ runes_of_ascii """)
-    asx @calculatedFrom(""a\""b""),
-}
-
-MetaData roots {
-}")).
-Eval vm_compute in ("<<<M4344>>>" ++ check (runes_of_ascii "options {
-}
-
-packet packetx {
-    crc charz ``,
-    leftPad,
-    @tag(3)
-    repeat uint64 u128 `doc`,
+Eval vm_compute in ("<<<M1848>>>" ++ check (runes_of_ascii "packet tag {
+    repeat T MetaDataX,
+    @calculatedFrom(""`tick`"")
     @tag(007)
+    leftPad `tab	here`,
+    @tag(0123456789)
+    char x,
+    @tag(0)
+    u64 tag,
+    i8 roots,
+    @lengthOf(float)
+    @tag(10)
     // c
     // `tick` ""quote"" 'q'
-    Pad roots,
-    @calculatedFrom(""CRC32"")
-    u8x metadata,
-    @tag(1)
-    zchar[0123456789] i8i8 `a\`,
-    match a1 as As {
-        ""a	b"" : roots,
-        [""\" ++ [233]%N ++ runes_of_ascii """, ""abc""] : string_,
-    },
-    repeat Header {
-        match f32a as _x {
-            4294967296 : repeatCount,
-            7 : u8x,
-            7 : As,
+    body {
+        chars {
+            repeat int8 body,
         },
-        i64 repeatCount @lengthOf(a1),
+        repeat Header {
+            char[] leftPad,
+        },
+        match Logon as zchar {
+            4294967296 : len,
+            ""a\""b"" : A,
+            //
+            00 : x_y_z,
+        },
+        repeat i16 options1,
     },
-    // " ++ [128512]%N ++ runes_of_ascii " emoji
-    // " ++ [27880; 37322]%N ++ runes_of_ascii "
+    @calculatedFrom(""" ++ [128512]%N ++ runes_of_ascii """)
+    @rightPad('0')
+    i16 Pad,//
+    int64 As @lengthOf(crc),
 }
 
-packet pack {
-    zchar[0] stringy,
-}/// triple
+MetaData x_y_z {
+    u crc,
+}
 
-root packet As {
-    // @lengthOf(
-    match u8x as packetx {
-        7 : uint8x,
-        65535 : int,
-        1 : T,
-        ""{,}"" : Foo,
-        0123456789 : Logon,
-        [65535] : len,
-    },
-    repeat lengthOf metadata,
-    @calculatedFrom(""" ++ [233]%N ++ runes_of_ascii "t" ++ [233]%N ++ runes_of_ascii """)
-    repeat zchar[65535] As `doc`,
-    char[7] float @calculatedFrom(""""),
-    float32 a1 `it's`,
-    @tag(3)
-    char[] BodyLength `line1
+root packet Z9_ {
+    @calculatedFrom(""{,}"")
+    tag,
+    @lengthOf(lengthOf)
+    zchar[42] crc `" ++ [233]%N ++ runes_of_ascii "`,
+    char[007] options1,
+}
+
+packet x {
+    char trueish,
+    char[] packetx @calculatedFrom(""" ++ [28040; 24687]%N ++ runes_of_ascii """) `line1
         line2`,
-    match int as asx {
-        [""" ++ [28040; 24687]%N ++ runes_of_ascii """, 0] : x_y_z,
-        1 : Packet,
-        ""{,}"" : falsey,
-        255 : charz,
-        [""{,}"", 0123456789] : uint8x,
+    zchar[1] Foo,
+    zchar[00] A,
+    match msg_type as tag {
+        """" : leftPad,
+        [""" ++ [128512]%N ++ runes_of_ascii """, 0, 10, 3] : Z9_,
+        ""it's"" : float,
+        10 : calculatedFrom,
+        ""x y"" : f32a,
+        007 : roots,
     },
-    crc @calculatedFrom(""\" ++ [233]%N ++ runes_of_ascii """) `crlf
-        line`,
-    match packetx as Pad {
+}
+
+packet u {
+    // trailing space 
+    @calculatedFrom(""\n"")
+    @calculatedFrom(""a\""b"")
+    i64_ rootA,
+    match x as Logon {
+        1 : body,
+        ""a\\"" : _x,
         ""packet"" : BodyLength,
     },
-    @lengthOf(BodyLength)
-    @tag(00)
-    @lengthOf(As)
-    match charz as len {
-        [""x y""] : _x,
-        //x
-        ""it's"" : i64_,
-        0123456789 : metadata,
-        // packet A { u8 x, }
-        //x
-        """ ++ [128512]%N ++ runes_of_ascii """ : trueish,
-        1 : Logon,
-    },
-}//	t")).
-Eval vm_compute in ("<<<M345>>>" ++ check (runes_of_ascii "// `tick` ""quote"" 'q'
-root	packet /// triple
-As { }packet x_y_z{@rightPad (
-) @tag( 42 )
-    @rightPad (' ' ) repeat f32a charz ,match Header as// a // b
-stringy { [ 1	,	4294967296 ]// packet A { u8 x, }
-: rootA ,
-0123456789 : x_y_z
-    , [
-    65535
-, 255]	:
-/// triple
-// a // b
-metadata ,
-[	7 , """ ++ [233]%N ++ runes_of_ascii "t" ++ [233]%N ++ runes_of_ascii """, ""{,}"" ,""{,}"" ] : T
-// trailing space 
-// " ++ [27880; 37322]%N ++ runes_of_ascii "
-,""packet"" :
-    chars , // trailing space 
-[ 42
-    , //
-00] : Logon,} ,repeat i8i8 {
-tag @calculatedFrom(// " ++ [27880; 37322]%N ++ runes_of_ascii "
-""" ++ [128512]%N ++ runes_of_ascii """ )`{ , }` , }
-,Z9_ @lengthOf(
-    Packet
-    // @lengthOf(
-    ) ,
-    // trailing space 
-    lengthOf
-    ,
-trueish {
-zchar[ 007/// triple
-]
-    packetx, zchar[ 0123456789
-] MetaDataX `// not a comment`
-, rootA @lengthOf(Z9_)
-    `" ++ [233]%N ++ runes_of_ascii "`, }
-,	} root// a // b
-packet u8x { float64 len@calculatedFrom( ""packet"" )
-//
-// " ++ [27880; 37322]%N ++ runes_of_ascii "
-, u8 calculatedFrom , @calculatedFrom( ""a\""b""
-) @calculatedFrom( ""\n"") // trailing space 
-@lengthOf(
-    Foo ) Logon @lengthOf(	i8i8) , // trailing space 
-@calculatedFrom(
-""a\\"") falsey@calculatedFrom(
-""" ++ [233]%N ++ runes_of_ascii "t" ++ [233]%N ++ runes_of_ascii """)`line1
-line2` ,@leftPad('\x00' )
-    // c
-    match
-i64_	as
-    // c
-    i64_{ [
-    0123456789 ] :  a1
-,[ ""1"" ,
-3 , //
-3 , 7 , 0
-] :string_ ,
-    """"// `tick` ""quote"" 'q'
-:
-    i64_ , }, @lengthOf( As )
-    // packet A { u8 x, }
-    T{zchar[ 0] roots
-@lengthOf(
-options1 )
-    , /// triple
-u16 pack
-    ,//
-} ,/// triple
-string// `tick` ""quote"" 'q'
-x	`crlf
-line`
-, }")).
-Eval vm_compute in ("<<<M741>>>" ++ check (runes_of_ascii "packet float { @calculatedFrom(
-// @lengthOf(
-// a // b
-""abc"" ) u64 roots
-, repeat u {repeat A `a\` , As @lengthOf( len ) , uint16 falsey ,
-    leftPad @lengthOf(
-//x
-// c
-crc)
-    ,
-    } , zchar[007 ]
-    int
-`a\`
-    ,
-@calculatedFrom( ""x y"")
-char[] Logon `
-`// `tick` ""quote"" 'q'
-, @rightPad ( ' ' // a // b
-)@lengthOf(
-tag) @tag( 0123456789 ) match
-    rootA as Z9_{ 65535 :
-    chars ""1"" : Pad // packet A { u8 x, }
-, }, @tag(	65535 ) tag
-    // " ++ [27880; 37322]%N ++ runes_of_ascii "
-    { char[
-//
-// " ++ [27880; 37322]%N ++ runes_of_ascii "
-255]// @lengthOf(
-charz@lengthOf( len
-)`a\` ,uint16 i64_
-@lengthOf(string_
-//x
-//
-) , }
-    ,
-// c
-/// triple
-o o `// not a comment` , @calculatedFrom(
-""1"" ) repeat T `" ++ [28040; 24687; 31867; 22411]%N ++ runes_of_ascii "`	, } root packet crc
-{ repeat
-zchar[ 4294967296
-    ] u8x, match MetaDataX as
-string_
-{
-[""`tick`"" ,	""packet""	, 10
-, ""packet"",	""// no comment"" , """ ++ [233]%N ++ runes_of_ascii "t" ++ [233]%N ++ runes_of_ascii """ ,
-65535] : stringy
-// packet A { u8 x, }
-//
-,
-[
-    3 ] :	stringy, [""" ++ [28040; 24687]%N ++ runes_of_ascii """ , 3 ] : asx	, // " ++ [128512]%N ++ runes_of_ascii " emoji
-[ 7, // @lengthOf(
-00, // @lengthOf(
-""" ++ [28040; 24687]%N ++ runes_of_ascii """ , ""a	b"" , 0, 4294967296// @lengthOf(
-,255
-,  007 ] :As//
-,
-""1"" : x_y_z
-// `tick` ""quote"" 'q'
-// @lengthOf(
-, } , } MetaData
-    falsey { } packet o // c
-{ @lengthOf(	Packet/// triple
-)
-@lengthOf( Z9_ ) @leftPad (
-'\x00' ) repeat
-Pad// packet A { u8 x, }
-matchKey
-,}
-MetaData
-stringy {}
-")).
-Eval vm_compute in ("<<<M3920>>>" ++ check (runes_of_ascii "packet leftPad {
-    // packet A { u8 x, }
-    @leftPad(' ')
-    repeat x `" ++ [233]%N ++ runes_of_ascii "`,
-    repeat pack,
-    // a // b
-    // a // b
-    uint32 A,// @lengthOf(
-    @tag(10)
-    @leftPad()
-    @calculatedFrom(""a	b"")
-    u32 stringy @lengthOf(lengthOf),
-    Foo `line1
-    line2`,
-    crc `u8 x,`,// @lengthOf(
-}
-
-options {
-    //
-    x = float64;
-    u8x = """ ++ [128512]%N ++ runes_of_ascii """;
-    pack = ' ';
-    // c
-    falsey = ""a\""b""
-}
-
-packet As {
-    repeat repeatCount u8x `doc`,
-    @leftPad('0')
-    @calculatedFrom(""\" ++ [233]%N ++ runes_of_ascii """)
-    match asx as crc {
-        4294967296 : u8x,
-        ""\n"" : u128,
-        0 : asx,
-        [255, ""x y""] : Logon,
-        0123456789 : A,
-        255 : i64_,
-    },
-    metadata @lengthOf(u8x),
-    repeat crc {
-        uint32 Packet,
-    },
-    @calculatedFrom(""" ++ [128512]%N ++ runes_of_ascii """)
-    T u128 `{ , }`,
-    repeat i32 msg_type,
-    @lengthOf(T)
-    int,
-    float {
-        // @lengthOf(
-        // `tick` ""quote"" 'q'
-        match trueish as leftPad {
-            [0, """ ++ [28040; 24687]%N ++ runes_of_ascii """] : f32a,
-        },
-        uint32 i8i8,
-        Packet {
-            char[65535] o @calculatedFrom(""it's""),
-        },// a // b
-    },
-    uint8 i8i8 `say ""hi""`,
-}/// triple
-
-packet BodyLength {
-}")).
-Eval vm_compute in ("<<<M358>>>" ++ check (runes_of_ascii "packet	matchKey { } packet rootA {} root packet lengthOf { // trailing space 
-@tag(
-0 //x
-)uint16 repeatCount
-    , //x
-uint32 rootA @calculatedFrom(""it's""
-// packet A { u8 x, }
-// `tick` ""quote"" 'q'
-)
-,
-//	t
-// a // b
-string uint8x /// triple
-,  u128@calculatedFrom(
-""" ++ [28040; 24687]%N ++ runes_of_ascii """ ) ,@leftPad
-( '\x00' ) u  `a\` , @leftPad( ' ' ) @calculatedFrom(
-""1"" ) @lengthOf( int )match msg_type
-// " ++ [128512]%N ++ runes_of_ascii " emoji
-// a // b
-as Pad{
-""abc""// " ++ [27880; 37322]%N ++ runes_of_ascii "
-: asx }
-    , options1 {
-    char[]  metadata // trailing space 
-, Logon@lengthOf( zchar ) , repeatCount {
-zchar[255 ] tag
-    ,x_y_z msg_type,// `tick` ""quote"" 'q'
-pack, MetaDataX @lengthOf(  falsey )
-    , }
-, zchar  @lengthOf( Header  )
-,  } ,@tag( 42 ) char[
-    007 ] i64_
-,
-// trailing space 
-//	t
-@lengthOf( As
-) match crc  as/// triple
-MetaDataX {65535 :leftPad
-""a\""b"" : BodyLength , 42:	crc
-    ,
-    // " ++ [27880; 37322]%N ++ runes_of_ascii "
-    0123456789: body , ""abc""
-:	stringy
-,	""CRC32"":
-    x_y_z,} ,
-    //
-    int32 Header @lengthOf(
-// @lengthOf(
-//
-asx // " ++ [27880; 37322]%N ++ runes_of_ascii "
-) , } packet packetx
-{	}root packet
-float//	t
-{ @tag( 1 ) @lengthOf(
-_x) @leftPad ( '0'
-    )
-repeat // c
-i64_ ,}
-")).
-Eval vm_compute in ("<<<M658>>>" ++ check (runes_of_ascii "// @lengthOf(
-packet BodyLength { char T
-    , } root packet
-A
-{
-repeat len `say ""hi""` ,repeat Pad{ repeat char[] // " ++ [128512]%N ++ runes_of_ascii " emoji
-stringy  , repeat
-rootA
-{ uint64
-Foo @lengthOf( // `tick` ""quote"" 'q'
-options1 ) // @lengthOf(
-`it's` ,
-//x
-/// triple
-zchar { zchar[
-42] Z9_
-,
-    repeat o  i8i8 ,
-uint8 x `it's` ,
-    rootA Foo
-`{ , }`, }
-, }
-,
-metadata
-@calculatedFrom( ""a	b"" )
-, } ,  @tag(	1) string
-    // c
-    u `doc`
-    //	t
-    ,  u
-@calculatedFrom(
-    ""it's"")
-    ``,char[ 7 ]	packetx@lengthOf( A ) `{ , }`	, string _x `
-` ,
-float32 _x , repeat char[ 42 ] rootA
-`doc` ,} MetaData matchKey {
-zchar[ 0123456789
-    ]falsey
-    `` , }  packet Logon
-{ @lengthOf( zchar ) match leftPad as falsey
-    {
-3 : Packet , 007 :// `tick` ""quote"" 'q'
-zchar
-1 : // @lengthOf(
-float ,	""it's"" :
-body""CRC32""
-    // " ++ [128512]%N ++ runes_of_ascii " emoji
-    :  body } , @calculatedFrom(""{,}"") zchar[
-    1 ] i8i8 @lengthOf(
-uint8x  )
-,
-zchar[ 00]
-    // `tick` ""quote"" 'q'
-    a1
-, uint64
-    u , string Packet @calculatedFrom( ""packet"" ), }
-")).
-Eval vm_compute in ("<<<M3618>>>" ++ check (runes_of_ascii "
-options
-
-    {LittleEndian
-= true  ;StringPrefixLenType
-    =u16
-	;
-	ArrayPrefixLenType	= u8
-	;
-
-FixedStringPadChar= 
-'0'	;
-
-    }
-	packet	Logout
-{  repeat	i16 f1 
-,
-string Ref ,
-@rightPad
-(
-    '\x00')char[
-
-9
-    ]
-Tail  ,
-repeat
-char[
-
-6
-
-]Flags
-,  repeat  char[
-
-    3 ] Acct
-    ,}
-packet
-
-Party	{	char[2
-] 
-f1
-,
-	u8
-Side2
-
-    ,
-@leftPad
-( ' '
-) char[ 1
-    ]
-
-    venue
-,	}
-    packet
-	Order
-
-    { repeat
-    i64
-    Ref  ,InPx62 {
-
-i32 OrderId
-	,} , InNote53
-
-    {
-InClordid80
-	{ char[] Acct ,	u32 
-Px
-    , repeat	Party 
-, 
-}  ,InPrice12	{ 
-u8 pad0 ,
-}
-    ,  repeat Logout ,
-
-    InFlags23
-{ repeat
-string seqNo
-, string  sym
-
-,
-    int8
-Flags , zchar[
-    5 
-] 
-lastPx
-
-, zchar[
-
-    6 
-]Px ,
-} , char[
-10
-    ]Acct
-
-,
-    InPx18 
-{ zchar[ 2 
-]
-
-count ,
-
-    Party	,
-    } ,	}
-, 
-char[  5
-	]
-	Side2
-,
-
-    char[  1 ] Acct	,
-
-}root
-packet
-Ack
-{ 
-u32
-Tail ,repeat	char[  4 ]
-
-msgKind,  repeat
-
-Logout , }
-")).
-Eval vm_compute in ("<<<M287>>>" ++ check (runes_of_ascii "
-root packet	Foo {
-Packet
-{
-u32 chars `{ , }`
-// a // b
-// " ++ [128512]%N ++ runes_of_ascii " emoji
-, zchar[ // " ++ [27880; 37322]%N ++ runes_of_ascii "
-255 ] Foo
-    , } , f32a @lengthOf( MetaDataX ) `doc` , As`say ""hi""`
-,  char[] crc @calculatedFrom( """ ++ [28040; 24687]%N ++ runes_of_ascii """
-)`say ""hi""` ,	int32 T//x
-`// not a comment` , @lengthOf( x )
-    //
-    pack
-{  match
-i8i8 as trueish
-    { ""x y"" : BodyLength, [
-// `tick` ""quote"" 'q'
-// packet A { u8 x, }
-""\n""
-    ,007,
-    ""// no comment"" ,
-//x
-// " ++ [128512]%N ++ runes_of_ascii " emoji
-42
-,
-""1"" , 65535// " ++ [128512]%N ++ runes_of_ascii " emoji
-,10 ] :
-    a1 ,[ ""{,}""
-]
-: metadata
-, ""a	b"" : As , }	,
-} ,
-match f32a	as
-    A
-    {""abc"": rootA
-    4294967296 : /// triple
-Z9_
-    // c
-    , [
-007 , ""a\""b""	, 00
-    , 42 ,
-1	,0123456789 ,""x y""
-] : Foo , }, char[ 7 ] i64_
-    `it's` , @lengthOf( pack ) repeat As , } MetaData
-charz	{ u64 asx, } packet x { }MetaData MetaDataX{A a1
-    // " ++ [128512]%N ++ runes_of_ascii " emoji
-    , char[]	x`a\` ,uint16 leftPad , }options
-{
-a1 =
-    42
-; BodyLength	= true
-;
-x_y_z =int16 } 	 ")).
-Eval vm_compute in ("<<<M895>>>" ++ check (runes_of_ascii "options { Foo =
-    // trailing space 
-    ""\" ++ [233]%N ++ runes_of_ascii """roots = ""`tick`""
-// trailing space 
-//	t
-; crc = ""packet"" ; falsey= // a // b
-1
-float = u32	; } packet
-options1	{
-    match Header as Packet { [ ""abc""
-    ] : Header , ""`tick`"" : i64_, [ 7 ,
-/// triple
-//x
-"""", 3 ] : Z9_	,
-    [ ""// no comment"" ,
-""x y"" , """ ++ [28040; 24687]%N ++ runes_of_ascii """ , 1, ""a	b"" ] : x_y_z
-,""a\""b"" :float// c
-} , // @lengthOf(
-i8i8 _x,  @rightPad ( '\x00')	zchar[
-0
-    ] string_ ,}packet u8x {@lengthOf(  packetx) char[ 42
-    ]
-    // `tick` ""quote"" 'q'
-    _x,
-    f64 matchKey `it's`
-, match repeatCount
-as
-roots
-    {
-// packet A { u8 x, }
-// " ++ [27880; 37322]%N ++ runes_of_ascii "
-[
-""CRC32""
-,
-""" ++ [128512]%N ++ runes_of_ascii """
-    ] : i8i8 ,} ,
-    // " ++ [27880; 37322]%N ++ runes_of_ascii "
-    @lengthOf(
-len ) @rightPad
-( ' '	) u stringy	`say ""hi""` ,// @lengthOf(
-repeat char[ 7  ] pack	`" ++ [28040; 24687; 31867; 22411]%N ++ runes_of_ascii "`,	@tag( 42	) string u8x`// not a comment`
-    , } root packet As
-    {	int32 x
-@calculatedFrom( ""\n"" ) , }
-")).
-Eval vm_compute in ("<<<M211>>>" ++ check (runes_of_ascii "packet f32a
-    { @calculatedFrom(""1"" )
-_x { string
-/// triple
-//	t
-metadata@calculatedFrom( ""`tick`""	) `// not a comment` ,  match // packet A { u8 x, }
-Foo as  len { 42//
-:Z9_ , //x
-}  , }
-,} packet /// triple
-options1{ @lengthOf(A )roots
-@lengthOf(// packet A { u8 x, }
-msg_type ) `line1
-line2` , int32/// triple
-a1 `it's` , @calculatedFrom( ""packet""
-    )repeat string T , @lengthOf( i64_ ) @calculatedFrom(
-""packet""
-) @tag( 007
-) int16 asx@calculatedFrom(
-""it's""
-    )//	t
-`doc` , repeat i32
-charz, metadata // packet A { u8 x, }
-`// not a comment` , }  packet
-Logon{ }
-options {
-}
-root
-packet tag  { @lengthOf(
-    Logon
-)
-charz { string stringy`// not a comment`	,
-uint64 int,char
-    i64_ `it's`
-// packet A { u8 x, }
-// a // b
-, } ,
-//	t
-//
-u8
-i64_ , zchar[ 1 ] float
-, } /// triple")).
-Eval vm_compute in ("<<<M220>>>" ++ check (runes_of_ascii "
-MetaData BodyLength
-{  int32 chars
-    `u8 x,` , char[
-0123456789 ] // c
-matchKey `a\` ,
-char[]
-    //
-    A , } packet//x
-u128
-    {}
-packet rootA
-{float64// c
-roots ,  @lengthOf(
-    float// `tick` ""quote"" 'q'
-)//	t
-repeat BodyLength { BodyLength{
-    repeat
-f64 Packet, char[ 7
-/// triple
-//	t
-] As `doc` ,
-}
-    ,
-} , calculatedFrom
-{i16  o@lengthOf(
-    Logon ) `doc`, Foo u128 ,	char// @lengthOf(
-u @lengthOf(  _x
-) ,  },@tag( 1  )@rightPad // `tick` ""quote"" 'q'
-(' '
-) char[]msg_type
-// trailing space 
-// trailing space 
-, } packet
-calculatedFrom
-{
-    char[] rootA@calculatedFrom( ""a	b"" ) ,
-}	options
-//	t
-// packet A { u8 x, }
-{
-    o =
-""// no comment"" matchKey
-    = '\x00' ;
-    u
-    = """"
-leftPad = ""CRC32""; A= ""CRC32"" ; } // trailing space ")).
-Eval vm_compute in ("<<<M380>>>" ++ check (runes_of_ascii "root
-    packet
-    stringy{	u8x @lengthOf( A)
-    , match f32a as // trailing space 
-options1
-// " ++ [27880; 37322]%N ++ runes_of_ascii "
-//	t
-{[
-""a\""b"" ,	0123456789 ] : trueish[
-    ""a\\""
-, 3
-, 65535
-    , 255 ,
-    """ ++ [233]%N ++ runes_of_ascii "t" ++ [233]%N ++ runes_of_ascii """, 65535 , ""\" ++ [233]%N ++ runes_of_ascii """ ] // `tick` ""quote"" 'q'
-:  body,},
-@calculatedFrom( """ ++ [128512]%N ++ runes_of_ascii """ ) repeat uint16 int //
-,repeat
-/// triple
-/// triple
-tag	, @leftPad () match int as u8x //
-{[ 65535 ,	""" ++ [233]%N ++ runes_of_ascii "t" ++ [233]%N ++ runes_of_ascii """
-    ] :
-    metadata
-,
-    }//x
-, @rightPad  () repeat zchar[ 7
-//	t
-// packet A { u8 x, }
-] Logon
-//
-//	t
-`crlf
-line`
-, As
-// " ++ [128512]%N ++ runes_of_ascii " emoji
-// packet A { u8 x, }
-{
-int64 roots , } , // packet A { u8 x, }
-@tag(255
-) int64 charz @calculatedFrom(
-""a	b"" ) , BodyLength lengthOf  ,float64
-As,  }packet	Foo { char[ 4294967296 ]float `u8 x,`
-    , } packet _x { }
-")).
-Eval vm_compute in ("<<<M3919>>>" ++ check (runes_of_ascii "
-
-  packet
-	msg_type
-// packet A { u8 x, }
-
-	{	//	t
-string	packetx
-@lengthOf(
-
-    charz )
-
-    ,
-	@calculatedFrom(
-
-    """" )
-repeat
-    char[
-0123456789
-    ]
-    // c
-int
-
-    `it's`
-, @rightPad
-
-    (	// packet A { u8 x, }
-
-  )
-	@tag(
-	42
-    )@calculatedFrom(
-""`tick`""
-
-    )
-
-repeat
-uint16
-    falsey`" ++ [233]%N ++ runes_of_ascii "` ,	i32
-Foo
-, 
-@tag(  7 
-)
-
-u64
-chars
-
-@lengthOf( 
-BodyLength  )	,
-
-    i16	Z9_
-    @lengthOf(	/// triple
-	a1
-)
-
-, @lengthOf( leftPad )lengthOf body
-
-    ``
-
-,	@tag(007 )  char[
-10	//x
-	]
-    _x 
-      // a // b
-// " ++ [27880; 37322]%N ++ runes_of_ascii "
-    @lengthOf(roots
-) `
-`  , // a // b
-
-@calculatedFrom(""a\\"" )
-	float64 	 //	t
-rootA`doc` ,
-string
-T@calculatedFrom(
-	""""
-) 
-, 
-}
-")).
-Eval vm_compute in ("<<<M4090>>>" ++ check (runes_of_ascii "root packet stringy {
-    u8x @lengthOf(A),
-    match f32a as options1 {
-        [""a\""b"", 0123456789] : trueish,
-        [
-            ""a\\"", 3, 65535, 255, """ ++ [233]%N ++ runes_of_ascii "t" ++ [233]%N ++ runes_of_ascii """,
-            65535, ""\" ++ [233]%N ++ runes_of_ascii """
-        ] : body,
-    },
-    @calculatedFrom(""" ++ [128512]%N ++ runes_of_ascii """)
-    repeat uint16 int,
-    repeat tag,
-    @leftPad()
-    match int as u8x {
-        [65535, """ ++ [233]%N ++ runes_of_ascii "t" ++ [233]%N ++ runes_of_ascii """] : metadata,
-    },
-    @rightPad()
-    repeat zchar[7] Logon `crlf
-        line`,
-    As {
-        int64 roots,
-    },// packet A { u8 x, }
-    @tag(255)
-    int64 charz @calculatedFrom(""a	b""),
-    BodyLength lengthOf,
-    float64 As,
-}
-
-packet Foo {
-    char[4294967296] float `u8 x,`,
-}
-
-packet _x {
-}")).
-Eval vm_compute in ("<<<M186>>>" ++ check (runes_of_ascii "packet Packet { @tag(	65535 ) @leftPad ( ' '
-    )
-@tag( 255
-    /// triple
-    )
-    uint8
-len
-    @lengthOf( T), int32 u8x , @lengthOf( rootA )float32 i64_
-`u8 x,` , } packet// c
-int { repeat	i8i8
-{lengthOf
-    @lengthOf( int)`line1
-line2`
-, string	falsey `
-` ,uint16
-// `tick` ""quote"" 'q'
-// trailing space 
-roots
-@lengthOf(
-charz), } , }options
-    { Foo = ' '	len  = """ ++ [128512]%N ++ runes_of_ascii """
-; chars= u64 ;
-//x
-//
-uint8x // a // b
-=	""" ++ [128512]%N ++ runes_of_ascii """
-    // trailing space 
-    ;metadata= ' ' ; }
-    // " ++ [27880; 37322]%N ++ runes_of_ascii "
-    MetaData Header
-    // " ++ [27880; 37322]%N ++ runes_of_ascii "
-    {
-i16
-    matchKey,Packet Packet `u8 x,`  , }packet u128 {uint8x
-@lengthOf(charz) `u8 x,`	, }
-")).
-Eval vm_compute in ("<<<M4011>>>" ++ check (runes_of_ascii "// packet A { u8 x, }
-packet zchar {
-    uint32 matchKey,
-    i32 leftPad @calculatedFrom(""1"") `crlf
-    line`,
-    _x {
-        f32a @calculatedFrom(""`tick`""),// packet A { u8 x, }
-        char metadata `u8 x,`,
-        // c
-        char[] a1 @lengthOf(float) `a\`,
-    },
-    @lengthOf(A)
-    /// triple
-    zchar[0123456789] Header @lengthOf(o) `" ++ [28040; 24687; 31867; 22411]%N ++ runes_of_ascii "`,
-    @tag(00)
-    x `it's`,
-    i8 msg_type @lengthOf(len) `
-    `,
-    @tag(00)
-    repeat matchKey {
-        string u `" ++ [28040; 24687; 31867; 22411]%N ++ runes_of_ascii "`,
-        u8 u @calculatedFrom(""a\""b""),
-        i8 len,
-        packetx,
-    },
-}
-
-options {
-    Foo = 0;
-}")).
-Eval vm_compute in ("<<<M1087>>>" ++ check (runes_of_ascii "  packet
-    falsey { float64	calculatedFrom`
-`, /// triple
-@tag(
-42 )
-repeatCount {
-match repeatCount as  A	{
-    0 : f32a
-    ,
-    } ,
-uint16 f32a @calculatedFrom(
-""a\\"" )  `// not a comment`  , crc {
-    char[ 3 ]
-Logon // `tick` ""quote"" 'q'
-@calculatedFrom(
-""packet"" ), repeat
-u128
-    {zchar[
-    42 ]lengthOf `crlf
-line` ,Pad roots `line1
-line2`
-,
-}
-// packet A { u8 x, }
-// trailing space 
-,
-// packet A { u8 x, }
-// `tick` ""quote"" 'q'
-}
-,}	,
-} packet uint8x	{repeat u8
-body , }packet
-asx	{
-zchar[ 255]
-// " ++ [128512]%N ++ runes_of_ascii " emoji
-// trailing space 
-asx ,}
-")).
-Eval vm_compute in ("<<<M178>>>" ++ check (runes_of_ascii "
-packet
-// packet A { u8 x, }
-// " ++ [27880; 37322]%N ++ runes_of_ascii "
-matchKey {} packet
-    string_ { matchKey @lengthOf(
-asx)
-    ,@rightPad ( ' '
-) metadata
-,
-// a // b
-// @lengthOf(
-o //
-chars ,  uint16 tag `u8 x,` ,
-repeat  float32 Logon  `two words` , /// triple
-matchKey	@calculatedFrom( ""a	b""
-)`doc`
-    ,
-repeat packetx
-a1 ,} MetaData Packet //
-{
-char[]
-    pack, string  zchar ,zchar[
-//	t
-// trailing space 
-1 ] x_y_z, int64
-    charz
-`say ""hi""`, u32
-lengthOf
-    `doc`
-,}
-options
-    { a1
-= int16 ; crc =' ';tag = char[ 42]
-leftPad
-    = true ; }")).
-Eval vm_compute in ("<<<M1032>>>" ++ check (runes_of_ascii "MetaData  lengthOf
-{
-}	root packet //x
-falsey
-// " ++ [128512]%N ++ runes_of_ascii " emoji
-//x
-{ Pad // a // b
-{
-zchar[ 1
-] Z9_ , msg_type
-    x_y_z , match u8x as trueish {
-    """ ++ [28040; 24687]%N ++ runes_of_ascii """
-:	asx,} , }	, // `tick` ""quote"" 'q'
-@lengthOf( rootA ) match zchar as int{
-""`tick`"" :
-    len , ""{,}"" : MetaDataX ,}	,
-i64 rootA
     //x
-    `" ++ [28040; 24687; 31867; 22411]%N ++ runes_of_ascii "` ,
-@calculatedFrom( ""it's"" )repeat
-    /// triple
-    metadata
-    ,
-    T @lengthOf( u128 ) , uint64 Pad , // " ++ [27880; 37322]%N ++ runes_of_ascii "
-falsey x ,	int16	leftPad
-    , //	t
-falsey  @lengthOf( matchKey), zchar[ 255 ] u128`u8 x,` ,
-}")).
-Eval vm_compute in ("<<<M761>>>" ++ check (runes_of_ascii "MetaData a1
-{
-// `tick` ""quote"" 'q'
-//	t
-_x  asx ,} MetaData Packet
-{	BodyLength
-    int, } root packet x	{ @leftPad(' ' ) f64
-// a // b
-// `tick` ""quote"" 'q'
-repeatCount@lengthOf(
-x // c
-) `line1
-line2`
-, @rightPad// @lengthOf(
-('\x00'
-    )match i8i8 as pack{ [ 10
-, """ ++ [128512]%N ++ runes_of_ascii """, 10
-, ""a	b"" ,
-1// trailing space 
-,
-// c
-// " ++ [128512]%N ++ runes_of_ascii " emoji
-7 ] : leftPad [ 255 , 10 ,0 , 1 , """ ++ [233]%N ++ runes_of_ascii "t" ++ [233]%N ++ runes_of_ascii """, ""x y""  ]: A """ ++ [28040; 24687]%N ++ runes_of_ascii """ :
-    u, 00 :  charz ,
-    // a // b
-    """ ++ [28040; 24687]%N ++ runes_of_ascii """
-:
-len 0:
-    As, } ,
-f32 x
-`" ++ [233]%N ++ runes_of_ascii "` , }	MetaData x {}")).
-Eval vm_compute in ("<<<M547>>>" ++ check (runes_of_ascii "options { As
-    =u16
-body =char[]
-} MetaData options1
-{ //
-zchar[1 ] T
-`{ , }`, stringy BodyLength
-    ,uint16 matchKey
-    , //	t
-char[ 255
-// `tick` ""quote"" 'q'
-// " ++ [128512]%N ++ runes_of_ascii " emoji
-] _x// trailing space 
-, o o `a\`
-, }
-packet chars
-{
-f32a
-{
-repeat a1,
-    repeat charz	x_y_z , asx,
-    rootA len
-`crlf
-line` ,
-}
-,// " ++ [27880; 37322]%N ++ runes_of_ascii "
-} root packet Header { string float
-`
-`
-,//	t
-} options
-{ T
-    = false options1 =
-    ""packet"" matchKey
-    =zchar[00 ] ; string_	= false ; }
-")).
-Eval vm_compute in ("<<<M3581>>>" ++ check (runes_of_ascii "// top
-packet // c0
-A
-    // c1
-{ // c2a
-  // c2b
-u8 // c3a
-  // c3b
-a // c4a
-  // c4b
-, } packet // c7
-B
-    // c8
-{ // c9
-u16 // c10
-b , // c12a
-  // c12b
-} // c13
-root // c14a
-  // c14b
-packet P // c16
-{ u8 // c18
-K // c19
-, // c20a
-  // c20b
-match // c21a
-  // c21b
-K
-    // c22
-as // c23a
-  // c23b
-M
-    // c24
-{
-    // c25
-1 // c26a
-  // c26b
-: // c27
-A // c28
-, 1 : // c31a
-  // c31b
-B // c32
-, // c33
-} // c34
-,
-    // c35
-} // c36
-")).
-Eval vm_compute in ("<<<M1090>>>" ++ check (runes_of_ascii "root packet MetaDataX
-{@leftPad ( '\x00' ) i8i8 @lengthOf( charz
-) ,repeat
-u8x `crlf
-line` ,
-    zchar
-    `line1
-line2`
-, @lengthOf( stringy
-    )repeat
-char[ 00] // trailing space 
-packetx , }
-    /// triple
-    root packet
-charz { match
-    repeatCount
-    as
-float {
-    //	t
-    0123456789
-    // a // b
-    : Packet ,	}
-    , string
+    @rightPad('\x00')
+    @calculatedFrom(""" ++ [128512]%N ++ runes_of_ascii """)
+    repeat stringy {
+        match T as float {
+            ""a\\"" : len,
+            0 : BodyLength,
+            [""it's"", ""{,}"", 255, 0123456789, ""a\\""] : Logon,
+            3 : rootA,
+        },
+    },//
+    u16 uint8x `{ , }`,
     // trailing space 
-    x_y_z	@calculatedFrom(
-    ""\n"" )
-,
-    }  options
-{ }")).
-Eval vm_compute in ("<<<M3522>>>" ++ check (runes_of_ascii "// top
-packet
-    // c0
-float
-    // c1
-{
-    // c2
-repeat
-    // c3
-i8i8
-    // c4
-MetaDataX
-    // c5
-`it's`
-    // c6
-,
-    // c7
-rootA
-    // c8
-,
-    // c9
-repeat
-    // c10
-int8
-    // c11
-int
-    // c12
-,
-    // c13
-match
-    // c14
-repeatCount
-    // c15
-as
-    // c16
-x_y_z
-    // c17
-{
-    // c18
-""{,}""
-    // c19
-:
-    // c20
-Logon
-    // c21
-,
-    // c22
-}
-    // c23
-,
-    // c24
-}
-    // c25
-")).
-Eval vm_compute in ("<<<M1347>>>" ++ check (runes_of_ascii "options {	x=
-    ""// no comment"" }	packet trueish { @lengthOf(
-_x )Header // " ++ [128512]%N ++ runes_of_ascii " emoji
-{
-char[]
-    Pad @calculatedFrom( """ ++ [28040; 24687]%N ++ runes_of_ascii """ )  ,  float64 msg_type , }	,repeat string
-    packetx `u8 x,`, match Header
-    as  charz
-    {
-    65535: pack
-    ,} // " ++ [128512]%N ++ runes_of_ascii " emoji
-, } packet float { } root packet A { @calculatedFrom(	""x y"" )// @lengthOf(
-string
-// " ++ [128512]%N ++ runes_of_ascii " emoji
-// " ++ [128512]%N ++ runes_of_ascii " emoji
-len @lengthOf( metadata
-)
-, }")).
-Eval vm_compute in ("<<<M4202>>>" ++ check (runes_of_ascii "options {
-    x = ""// no comment""
-}
-
-packet trueish {
-    @lengthOf(_x)
-    Header {
-        char[] Pad @calculatedFrom(""" ++ [28040; 24687]%N ++ runes_of_ascii """),
-        float64 msg_type,
-    },
-    repeat string packetx `u8 x,`,
-    match Header as charz {
-        65535 : pack,
-    },
-}
-
-packet float {
-}
-
-root packet A {
-    @calculatedFrom(""x y"")
+    //x
+    @leftPad('0')
+    string i64_ @lengthOf(stringy),
+    // `tick` ""quote"" 'q'
     // @lengthOf(
-    string len @lengthOf(metadata),
+    u64 leftPad @calculatedFrom(""a	b""),
+    repeat Header MetaDataX `a\`,
+    @lengthOf(stringy)
+    Packet leftPad,
+    @tag(00)
+    repeat zchar _x `tab	here`,
+    i32 matchKey,
 }")).
-Eval vm_compute in ("<<<M4153>>>" ++ check (runes_of_ascii "packet string_ {
-    zchar[3] stringy @lengthOf(packetx) `u8 x,`,// `tick` ""quote"" 'q'
-    f64 string_ ``,
+Eval vm_compute in ("<<<M380>>>" ++ check (runes_of_ascii "options {
+    StringPrefixLenType = u16;
+    ArrayPrefixLenType = u16;
 }
 
-MetaData leftPad {
-    char[1] MetaDataX `crlf
-    line`,
-    metadata a1 `tab	here`,
-    T o `line1
-    line2`,// " ++ [128512]%N ++ runes_of_ascii " emoji
-    o trueish,
+packet SampleBinary {
+    uint16 MsgType `" ++ [28040; 24687; 31867; 22411]%N ++ runes_of_ascii "`,
+    u16 BodyLenght @lengthOf(Body) `" ++ [28040; 24687; 20307; 38271; 24230]%N ++ runes_of_ascii "`,
+    match MsgType as Body {
+        1 : Logon,
+        2 : Logout,
+        3 : Heartbeat,
+        4 : RiskControlRequest,
+        5 : RiskControlResponse,
+    },
+    @calculatedFrom(""CRC32"")
+    u32 Ckecksum `" ++ [26657; 39564; 21644]%N ++ runes_of_ascii "`,
 }
 
-options {
+packet Logon {
+    @leftPad('0')
+    char[10] UserName `" ++ [29992; 25143; 21517]%N ++ runes_of_ascii "`,
+    string Password `" ++ [23494; 30721]%N ++ runes_of_ascii "`,
+    uint64 ClientId `" ++ [23458; 25143; 31471]%N ++ runes_of_ascii "ID`,
+    u16 HeartbeatInterval `" ++ [24515; 36339; 38388; 38548]%N ++ runes_of_ascii "`,
 }
 
-MetaData T {
-    Foo Logon,
-    Logon lengthOf,
-    char[00] pack,
-    char[7] i8i8 ``,
+packet Logout {
+    @rightPad('0')
+    char[10] UserName `" ++ [29992; 25143; 21517]%N ++ runes_of_ascii "`,
+    uint64 ClientId `" ++ [23458; 25143; 31471]%N ++ runes_of_ascii "ID`,
+}
+
+packet Heartbeat {
+}
+
+packet RiskControlRequest {
+    string UniqueOrderId `" ++ [21807; 19968; 35746; 21333; 21495]%N ++ runes_of_ascii "`,
+    char[16] ClOrdID `" ++ [23458; 25143; 35746; 21333; 21495]%N ++ runes_of_ascii "`,
+    char[3] MarketID `" ++ [24066; 22330]%N ++ runes_of_ascii "id`,
+    char[12] SecurityID `" ++ [35777; 21048; 20195; 30721]%N ++ runes_of_ascii "`,
+    char Side `" ++ [20080; 21334; 26041; 21521]%N ++ runes_of_ascii "`,
+    char OrderType `" ++ [35746; 21333; 31867; 22411]%N ++ runes_of_ascii "`,
+    u64 Price `" ++ [20215; 26684]%N ++ runes_of_ascii "`,
+    u32 Qty `" ++ [25968; 37327]%N ++ runes_of_ascii "`,
+    repeat string ExtraInfo `" ++ [38468; 21152; 20449; 24687]%N ++ runes_of_ascii "`,
+    repeat SubOrder {
+        char[16] ClOrdID `" ++ [23376; 35746; 21333; 21495]%N ++ runes_of_ascii "`,
+        u64 Price `" ++ [23376; 35746; 21333; 20215; 26684]%N ++ runes_of_ascii "`,
+        u32 Qty `" ++ [23376; 35746; 21333; 25968; 37327]%N ++ runes_of_ascii "`,
+    },
+}
+
+packet RiskControlResponse {
+    string UniqueOrderId `" ++ [21807; 19968; 35746; 21333; 21495]%N ++ runes_of_ascii "`,
+    i32 Status `" ++ [29366; 24577]%N ++ runes_of_ascii "`,
+    string Msg `" ++ [32467; 26524; 20449; 24687]%N ++ runes_of_ascii "`,
+    repeat Detail,
+}
+
+packet Detail {
+    string RuleName `" ++ [35268; 21017; 21517; 31216]%N ++ runes_of_ascii "`,
+    u16 Code `" ++ [21407; 22240; 20195; 30721]%N ++ runes_of_ascii "`,
 }")).
-Eval vm_compute in ("<<<M4587>>>" ++ check (runes_of_ascii "
-
-  MetaData
-u{
-	u128
-
-    tag
-
-`
-`,
-	zchar[
-10]  pack 
-`say ""hi""`
-	, 
-string
-
-metadata
-    `doc`
-	,
-	}	packet	chars {
-	match crc
-	as  trueish  { 
-	// " ++ [27880; 37322]%N ++ runes_of_ascii "
-  10  : 
-roots 
-[ """ ++ [28040; 24687]%N ++ runes_of_ascii """
-
-,
-	"""", 4294967296
-,  ""\n"" 
-,007  ,
-
-    ""a\""b""
-	,
-
-"""" ,  // `tick` ""quote"" 'q'
-  42 
-]
-:
-string_ ""{,}"":x_y_z	,  } ,i8i8 
-int ,
-    asx ,}
-        //	t
-")).
-Eval vm_compute in ("<<<M1941>>>" ++ check (runes_of_ascii "MetaData
-    u { }  options {
-// c
-// @lengthOf(
-float = int8 ;rootA =false ; As =	int16 // `tick` ""quote"" 'q'
-repeatCount repeatCount
-    // trailing space 
-    =
-    int16
-; u8x =
-    //	t
-    '\x00' ; } options	{
-    repeatCount
-= 0
-u128
-    //
-    = false ; i64_
-// trailing space 
-// `tick` ""quote"" 'q'
-= '0' ; //	t
-}
-")).
-Eval vm_compute in ("<<<M2018>>>" ++ check (runes_of_ascii "MetaData
-    u { }  options {
-// c
-// @lengthOf(
-float = int8 ;rootA =false ; As =	int16 // `tick` ""quote"" 'q'
-repeatCount
-    // trailing space 
-    =
-    int16
-; u8x =
-    //	t
-    '\x00' ; } options	{
-    repeatCount
-= 0
-u128
-    //
-    packet false ; i64_
-// trailing space 
-// `tick` ""quote"" 'q'
-= '0' ; //	t
-}
-")).
-Eval vm_compute in ("<<<M1948>>>" ++ check (runes_of_ascii "MetaData
-    u { }  options {
-// c
-// @lengthOf(
-float = int8 ;rootA =false ; As =	int16 // `tick` ""quote"" 'q'
-repeatCount
-    // trailing space 
-    007
-    int16
-; u8x =
-    //	t
-    '\x00' ; } options	{
-    repeatCount
-= 0
-u128
-    //
-    = false ; i64_
-// trailing space 
-// `tick` ""quote"" 'q'
-= '0' ; //	t
-}
-")).
-Eval vm_compute in ("<<<M2064>>>" ++ check (runes_of_ascii "MetaData
-    u { }  options {
-// c
-// @lengthOf(
-float = int8 ;rootA =false ; As =	int16 // `tick` ""quote"" 'q'
-repeatCount
-    // trailing space 
-    =
-    int16
-; u8x =
-    //	t
-    '\x00' ; } options	{
-    repeatCount
-= 0
-u128
-    //
-   $ = false ; i64_
-// trailing space 
-// `tick` ""quote"" 'q'
-= '0' ; //	t
-}
-")).
-Eval vm_compute in ("<<<M1972>>>" ++ check (runes_of_ascii "MetaData
-    u { }  options {
-// c
-// @lengthOf(
-float = int8 ;rootA =false ; As =	int16 // `tick` ""quote"" 'q'
-repeatCount
-    // trailing space 
-    =
-    int16
-; u8x =
-    //	t
-    ; '\x00' } options	{
-    repeatCount
-= 0
-u128
-    //
-    = false ; i64_
-// trailing space 
-// `tick` ""quote"" 'q'
-= '0' ; //	t
-}
-")).
-Eval vm_compute in ("<<<M1930>>>" ++ check (runes_of_ascii "MetaData
-    u { }  options {
-// c
-// @lengthOf(
-float = int8 ;rootA =false ; As 	int16 // `tick` ""quote"" 'q'
-repeatCount
-    // trailing space 
-    =
-    int16
-; u8x =
-    //	t
-    '\x00' ; } options	{
-    repeatCount
-= 0
-u128
-    //
-    = false ; i64_
-// trailing space 
-// `tick` ""quote"" 'q'
-= '0' ; //	t
-}
-")).
-Eval vm_compute in ("<<<M2030>>>" ++ check (runes_of_ascii "MetaData
-    u { }  options {
-// c
-// @lengthOf(
-float = int8 ;rootA =false ; As =	int16 // `tick` ""quote"" 'q'
-repeatCount
-    // trailing space 
-    =
-    int16
-; u8x =
-    //	t
-    '\x00' ; } options	{
-    repeatCount
-= 0
-u128
-    //
-    = false ; 
-// trailing space 
-// `tick` ""quote"" 'q'
-= '0' ; //	t
-}
-")).
-Eval vm_compute in ("<<<M1995>>>" ++ check (runes_of_ascii "MetaData
-    u { }  options {
-// c
-// @lengthOf(
-float = int8 ;rootA =false ; As =	int16 // `tick` ""quote"" 'q'
-repeatCount
-    // trailing space 
-    =
-    int16
-; u8x =
-    //	t
-    '\x00' ; } options	{
-    
-= 0
-u128
-    //
-    = false ; i64_
-// trailing space 
-// `tick` ""quote"" 'q'
-= '0' ; //	t
-}
-")).
-Eval vm_compute in ("<<<M4280>>>" ++ check (runes_of_ascii "packet x {
-    int8 T,
+Eval vm_compute in ("<<<M1809>>>" ++ check (runes_of_ascii "packet As {
+    options1 {
+        i16 o,
+    },
+    i64 roots,
+    repeat char[] o `a\`,
+    @calculatedFrom(""1"")
+    repeatCount @lengthOf(falsey) `a\`,
+    @lengthOf(stringy)
+    char[] As `" ++ [233]%N ++ runes_of_ascii "`,
+    asx {
+        match msg_type as chars {
+            //	t
+            00 : metadata,
+        },
+        i8 pack @calculatedFrom(""x y""),//	t
+        match u8x as rootA {
+            ""1"" : a1,
+            [4294967296] : msg_type,
+        },
+    },
+    @calculatedFrom(""" ++ [233]%N ++ runes_of_ascii "t" ++ [233]%N ++ runes_of_ascii """)
+    int16 roots,
+    @tag(1)
+    @leftPad('0')
+    @rightPad('\x00')
+    i32 asx `tab	here`,
+    char Logon `u8 x,`,
 }
 
-options {
+root packet string_ {
+    // @lengthOf(
 }
 
 packet Z9_ {
-    @lengthOf(A)
-    As @calculatedFrom(""x y""),
-}
-
-MetaData Logon {
-    //x
-    //x
-    pack trueish,/// triple
-    rootA charz,
-    leftPad leftPad,
-    char[] Logon,
-    // a // b
-    // " ++ [27880; 37322]%N ++ runes_of_ascii "
-    f64 matchKey,
-    falsey falsey `two words`,
-}")).
-Eval vm_compute in ("<<<M4349>>>" ++ check (runes_of_ascii "  packet
-
-    trueish  {  body Logon ,
-} packet len	{
-	@leftPad(
-    '0' // packet A { u8 x, }
-)
-
-@rightPad
-
-    () repeat  calculatedFrom `u8 x,` ,repeatCount
-{
-    repeat
-Logon	tag 
-`u8 x,`
-,	} 	 // " ++ [128512]%N ++ runes_of_ascii " emoji
-,
-repeat char[	65535 ]Header  `two words` ,float32 Pad  ,
-    } ")).
-Eval vm_compute in ("<<<M3309>>>" ++ check (runes_of_ascii "// top
-root // c0
-packet // c1a
-  // c1b
-matchKey // c2
-{
-    // c3
-zchar[ 3 // c5
-]
-    // c6
-pack @calculatedFrom( // c8
-""a	b"" // c9a
-  // c9b
-) // c10
-`doc` // c11
-, } options
-    // c14
-{ } // c16
-MetaData A { // c19a
-  // c19b
-int8 // c20
-msg_type ,
-    // c22
-} ")).
-Eval vm_compute in ("<<<M1603>>>" ++ check (runes_of_ascii "packet
-//	t
-// trailing space 
-_x {
-// packet A { u8 x, }
-// c
-char[
-3
-    ] u8x @lengthOf(
-u8x ) , @calculatedFrom(""" ++ [128512]%N ++ runes_of_ascii """ // @lengthOf(
-)
-i16	Foo
-@lengthOf(	string_
-    )`doc`	, repeat	i64 metadata metadata , @lengthOf( string_
-) i8 // c
-u  `line1
-line2`	,
-}
-")).
-Eval vm_compute in ("<<<M1563>>>" ++ check (runes_of_ascii "packet
-//	t
-// trailing space 
-_x {
-// packet A { u8 x, }
-// c
-char[
-3
-    ] u8x @lengthOf(
-u8x ) , @calculatedFrom(""" ++ [128512]%N ++ runes_of_ascii """ // @lengthOf(
-)
-i16	Foo Foo
-@lengthOf(	string_
-    )`doc`	, repeat	i64 metadata , @lengthOf( string_
-) i8 // c
-u  `line1
-line2`	,
-}
-")).
-Eval vm_compute in ("<<<M1661>>>" ++ check (runes_of_ascii "packet
-//	t
-// trailing space 
-_x {
-// packet A { u8 x, }
-// c
-char[
-3
-    ] u8x @lengthOf(
-` u8x ) , @calculatedFrom(""" ++ [128512]%N ++ runes_of_ascii """ // @lengthOf(
-)
-i16	Foo
-@lengthOf(	string_
-    )`doc`	, repeat	i64 metadata , @lengthOf( string_
-) i8 // c
-u  `line1
-line2`	,
-}
-")).
-Eval vm_compute in ("<<<M1529>>>" ++ check (runes_of_ascii "packet
-//	t
-// trailing space 
-_x {
-// packet A { u8 x, }
-// c
-char[
-3
-    ] u8x @lengthOf(
-) u8x , @calculatedFrom(""" ++ [128512]%N ++ runes_of_ascii """ // @lengthOf(
-)
-i16	Foo
-@lengthOf(	string_
-    )`doc`	, repeat	i64 metadata , @lengthOf( string_
-) i8 // c
-u  `line1
-line2`	,
-}
-")).
-Eval vm_compute in ("<<<M1497>>>" ++ check (runes_of_ascii "packet
-//	t
-// trailing space 
-_x 
-// packet A { u8 x, }
-// c
-char[
-3
-    ] u8x @lengthOf(
-u8x ) , @calculatedFrom(""" ++ [128512]%N ++ runes_of_ascii """ // @lengthOf(
-)
-i16	Foo
-@lengthOf(	string_
-    )`doc`	, repeat	i64 metadata , @lengthOf( string_
-) i8 // c
-u  `line1
-line2`	,
-}
-")).
-Eval vm_compute in ("<<<M4044>>>" ++ check (runes_of_ascii "/// triple
-root packet Logon {
-    @calculatedFrom(""CRC32"")
-    uint8x {
-        roots pack `line1
-        line2`,
+    int8 _x,
+    repeat u8 uint8x `" ++ [233]%N ++ runes_of_ascii "`,
+    float64 x_y_z @calculatedFrom(""x y""),
+    @calculatedFrom(""a\""b"")
+    @calculatedFrom(""a\""b"")
+    int {
+        zchar[255] msg_type,
+        i64_ {
+            stringy @lengthOf(x_y_z),
+            u options1 `tab	here`,
+            char[0123456789] msg_type,
+            float32 Foo `{ , }`,
+        },
     },
-    string u,
-}
-
-packet body {
-    uint64 Logon,
-}
-
-root packet lengthOf {
-}
-
-packet A {
-    u32 pack @calculatedFrom(""" ++ [128512]%N ++ runes_of_ascii """),
-}")).
-Eval vm_compute in ("<<<M1327>>>" ++ check (runes_of_ascii "
-packet
-    //x
-    leftPad {
-    }options
-{ Foo
-= ""1""zchar
-    = 65535 uint8x  = zchar[ 10
-    ] ;
-} MetaData
-    u128 { f32a x
-, i16 u8x
-    `two words` , BodyLength metadata `// not a comment` // a // b
+    @tag(0)
+    @calculatedFrom(""CRC32"")
+    charz,
+    @tag(4294967296)
+    i64 packetx,
+}//	t")).
+Eval vm_compute in ("<<<M62>>>" ++ check (runes_of_ascii "MetaData Packet { // `tick` ""quote"" 'q'
+Header
+// " ++ [27880; 37322]%N ++ runes_of_ascii "
+// c
+uint8x
+`{ , }`, x_y_z u8x `it's`
+// packet A { u8 x, }
+// packet A { u8 x, }
 ,
-    } options {As= '\x00'
-;}")).
-Eval vm_compute in ("<<<M504>>>" ++ check (runes_of_ascii "
-packet Z9_ { } // " ++ [27880; 37322]%N ++ runes_of_ascii "
-MetaData packetx
-{ u8 x_y_z
-    `it's` , } packet options1
-    {
-uint16 rootA
-    `" ++ [28040; 24687; 31867; 22411]%N ++ runes_of_ascii "`
-//x
+} // trailing space 
+root packet packetx { repeat char[]  packetx , string zchar@lengthOf( a1
+)	`tab	here`
+    // @lengthOf(
+    ,
+match
+    string_ as float { ""a\""b""  : Logon , 00
+    :
+    Foo 42 : stringy	[ 255
+    , 0, ""a\\""] :f32a // @lengthOf(
+[7 ,	""`tick`""
+] : float , 0 : // c
+len //	t
+,} , @lengthOf( Header	)
+    //
+    len`doc`
+, repeat
+Pad { // " ++ [27880; 37322]%N ++ runes_of_ascii "
+repeat	Pad `it's`,// @lengthOf(
+char[ 65535
+    ]i64_
+    @calculatedFrom( //
+""1"" )
+    `a\` , crc
+    // `tick` ""quote"" 'q'
+    `two words` , match len
+// a // b
+/// triple
+as
+BodyLength { ""abc""
+    // " ++ [27880; 37322]%N ++ runes_of_ascii "
+    :a1, [ ""packet""
+    /// triple
+    ,
+    7
+    ]
+    : crc
+,
+    // c
+    3 :
+    asx , }	,	} ,
+int8 rootA @lengthOf(crc ),@lengthOf( chars)
+    // trailing space 
+    @tag( 7 ) @tag(7 ) repeat char[ 10 ] packetx	, }
+
+")).
+Eval vm_compute in ("<<<M2068>>>" ++ check (runes_of_ascii "packet
+
+    zchar{ 
+msg_type  ,
+//
+
+	// `tick` ""quote"" 'q'
+
+  @tag(
+65535 )
+	repeat	float32
+len ,@lengthOf( 
+    // " ++ [27880; 37322]%N ++ runes_of_ascii "
+
 // `tick` ""quote"" 'q'
-, // " ++ [128512]%N ++ runes_of_ascii " emoji
-repeat string stringy`" ++ [233]%N ++ runes_of_ascii "` ,
-    char[] // @lengthOf(
-repeatCount `" ++ [28040; 24687; 31867; 22411]%N ++ runes_of_ascii "`
+crc
+) 
+lengthOf
+        //
+    { repeat float
+
+`say ""hi""`
+	,	}
 ,
-    }")).
-Eval vm_compute in ("<<<M3597>>>" ++ check (runes_of_ascii "options
-    {  FixedStringPadChar=	'0'
-    ; 
-}packet
-Q {
+    u32// a // b
+      Packet @lengthOf(
 
-zchar[
-	4
-] z , @rightPad
-( '\x00'  ) char[3 ] 
-n , char[ 5
-] d
+    i8i8 	 // a // b
+  ) `
+`
+	    // packet A { u8 x, }
+// packet A { u8 x, }
+    ,i8i8	// a // b
+    	, u32  calculatedFrom
 
-    ,  }root 
-packet R {
-    Q
+@lengthOf(	BodyLength  //x
+) 
+`a\` ,	@lengthOf(
+    Logon  // " ++ [128512]%N ++ runes_of_ascii " emoji
+
+  )
+
+    match
+	MetaDataX as
+    Foo
+
+    {	[ ""\n"" ,
+255  ]	:
+Packet
 ,
-	zchar[ 8
-    ] 
-top
-, repeat zchar[
-2
 
-    ] zs,
+    3
+	:
+
+o
+	,  [
+007
+	]	:  T	,
+    }	,
+match pack
+
+as
+A { 
+""" ++ [28040; 24687]%N ++ runes_of_ascii """
+:
+	_x 007
+	:
+    //x
+
+// " ++ [128512]%N ++ runes_of_ascii " emoji
+	metadata
+, 
+255
+	: As	,7	:
+
+    charz
+	,
+10 : len 
+,  },f32  len ,
+@leftPad
+    (
+'\x00'
+)
+
+float32
+	trueish
+,
+    } ")).
+Eval vm_compute in ("<<<M1682>>>" ++ check (runes_of_ascii "
+packet msg_type 
+      // packet A { u8 x, }
+{//	t
+  string packetx  @lengthOf( charz ) ,
+@calculatedFrom( 
+"""") repeat
+	char[
+0123456789
+] 
+// c
+  int
+`it's` 
+, 
+@rightPad
+(  // packet A { u8 x, }
+		) @tag( 
+42
+
+    ) @calculatedFrom(""`tick`"" )  repeat
+uint16
+falsey
+	`" ++ [233]%N ++ runes_of_ascii "` ,i32
+
+Foo,
+@tag(
+7) 
+u64
+
+chars
+
+    @lengthOf(
+BodyLength  ),	i16 Z9_  @lengthOf( /// triple
+
+a1
+    )
+
+, @lengthOf( leftPad
+
+)
+    lengthOf
+    body``
+, @tag(
+
+007
+    )
+
+char[
+
+    10//x
+  ]
+	_x 
+      // a // b
+    // " ++ [27880; 37322]%N ++ runes_of_ascii "
+    @lengthOf( roots ) `
+`
+	,	// a // b
+@calculatedFrom(
+""a\\"" ) float64//	t
+  rootA `doc`
+,
+
+    string T	@calculatedFrom("""" )	,
 
     }
 
 ")).
-Eval vm_compute in ("<<<M4464>>>" ++ check (runes_of_ascii "options {
-}// a // b
+Eval vm_compute in ("<<<M1984>>>" ++ check (runes_of_ascii "
 
-packet BodyLength {
-    zchar[0123456789] packetx `doc`,
-    repeat msg_type `// not a comment`,
-    zchar[00] len,
-    chars @lengthOf(chars) `a\`,
-}
-
-MetaData _x {
-    asx MetaDataX `{ , }`,
-}")).
-Eval vm_compute in ("<<<M1817>>>" ++ check (runes_of_ascii "options { trueish = ""`tick`"" ; string_= """ ++ [233]%N ++ runes_of_ascii "t" ++ [233]%N ++ runes_of_ascii """
-    // c
-    } root
-    packet body { stringy @calculatedFrom(
-""a	b"" ) `line1
-line2` , }
-packet Logon {
-    @leftPad(
-    ' ' ) //	t
-u16 string_ string_ `u8 x,` ,
-}
-")).
-Eval vm_compute in ("<<<M1802>>>" ++ check (runes_of_ascii "options { trueish = ""`tick`"" ; string_= """ ++ [233]%N ++ runes_of_ascii "t" ++ [233]%N ++ runes_of_ascii """
-    // c
-    } root
-    packet body { stringy @calculatedFrom(
-""a	b"" ) `line1
-line2` , }
-packet Logon {
-    @leftPad(
-    ' ' ' ' ) //	t
-u16 string_ `u8 x,` ,
-}
-")).
-Eval vm_compute in ("<<<M1851>>>" ++ check (runes_of_ascii "options { trueish = ""`tick`"" ; string_= """ ++ [233]%N ++ runes_of_ascii "t" ++ [233]%N ++ runes_of_ascii """
-    // c
-    } root
-    packet body { stringy @calculatedFrom(
-""a	b"" ) `line1
-line2` , }
-packet Logon {
-    @leftPad(
-    ' ' ) //	t
-u16 " ++ [233]%N ++ runes_of_ascii " string_ `u8 x,` ,
-}
-")).
-Eval vm_compute in ("<<<M1728>>>" ++ check (runes_of_ascii "options { trueish = ""`tick`"" ; string_= """ ++ [233]%N ++ runes_of_ascii "t" ++ [233]%N ++ runes_of_ascii """
-    // c
-    } root
-    body packet { stringy @calculatedFrom(
-""a	b"" ) `line1
-line2` , }
-packet Logon {
-    @leftPad(
-    ' ' ) //	t
-u16 string_ `u8 x,` ,
-}
-")).
-Eval vm_compute in ("<<<M1696>>>" ++ check (runes_of_ascii "options { trueish = ""`tick`""  string_= """ ++ [233]%N ++ runes_of_ascii "t" ++ [233]%N ++ runes_of_ascii """
-    // c
-    } root
-    packet body { stringy @calculatedFrom(
-""a	b"" ) `line1
-line2` , }
-packet Logon {
-    @leftPad(
-    ' ' ) //	t
-u16 string_ `u8 x,` ,
-}
-")).
-Eval vm_compute in ("<<<M1751>>>" ++ check (runes_of_ascii "options { trueish = ""`tick`"" ; string_= """ ++ [233]%N ++ runes_of_ascii "t" ++ [233]%N ++ runes_of_ascii """
-    // c
-    } root
-    packet body { stringy @calculatedFrom(
- ) `line1
-line2` , }
-packet Logon {
-    @leftPad(
-    ' ' ) //	t
-u16 string_ `u8 x,` ,
-}
-")).
-Eval vm_compute in ("<<<M1167>>>" ++ check (runes_of_ascii "  options { } packet Logon{} packet Foo
-{
-    uint8x _x // a // b
-`" ++ [28040; 24687; 31867; 22411]%N ++ runes_of_ascii "` ,
-    } packet
-u8x	{
-rootA , }
-    options
-    // packet A { u8 x, }
-    {
-msg_type = false stringy=
-    ' '
-    } 	 ")).
-Eval vm_compute in ("<<<M727>>>" ++ check (runes_of_ascii "packet
-tag// a // b
-{ repeat string
-msg_type ,
-// `tick` ""quote"" 'q'
-// `tick` ""quote"" 'q'
-i64
-float  `crlf
-line` ,@rightPad
-( '0'
-) @lengthOf(
+  packet
+T { 
+@lengthOf( 
 MetaDataX
-)	body ,} // trailing space ")).
-Eval vm_compute in ("<<<M767>>>" ++ check (runes_of_ascii "MetaData
-msg_type { float32 metadata `line1
-line2`,
-    uint16 msg_type `// not a comment` ,
-    float
-    Pad, float64 trueish`{ , }`, x
-    stringy
-    // " ++ [128512]%N ++ runes_of_ascii " emoji
-    `tab	here` ,}")).
-Eval vm_compute in ("<<<M1591>>>" ++ check (runes_of_ascii "packet
+	) match Packet as a1
+
+{	[
+""1""  ]
+	:zchar	""{,}""
+    :
+
+    _x ,
+
+}
+,// @lengthOf(
+  	char[
+	007]	// a // b
+  u128  @lengthOf( zchar )
+	    // a // b
+    // packet A { u8 x, }
+	,string_ , @leftPad
+(	' '  )
+
+    match
+
+    MetaDataX as 
+u128 {  [""it's"" , 7
+    , 
+65535 ,
+	65535
+
+    ]
+: chars
+
+,  """ ++ [28040; 24687]%N ++ runes_of_ascii """ 	 // c
+:
+u
+,
+
+    42 : zchar, 
+}
+	,
+} options 	 // `tick` ""quote"" 'q'
+  {
+    matchKey
+=""a\""b""  }  MetaData
+
+options1  {i16 len 
+,
+    char[
+    7 ]	// packet A { u8 x, }
+crc
+,u16
+    asx`say ""hi""`,
+i64
+zchar ,	} 	 // " ++ [27880; 37322]%N ++ runes_of_ascii "
+")).
+Eval vm_compute in ("<<<M1545>>>" ++ check (runes_of_ascii "
+options{ StringPrefixLenType =
+	u8
+
+;ArrayPrefixLenType = u32 ; }	packet
+
+    Quote{ u32 Ref  ,InNote74
+	{
+u8 
+pad0
+	,	}
+
+    ,
+
+    } packet
+Ack	{
+
+    repeat
+	string OrderId	,
+}
+packet
+Logout { zchar[ 7
+
+    ]  venue 
+, 
+char[
+12
+    ] 
+Px
+
+    ,string	count 
+,char[]
+Tail
+
+,
+char[]
+Qty
+,	Quote
+
+    ,
+	} root 
+packet
+
+Trade
+	{
+zchar[ 2 ]
+price	,
+
+    u32 x	, u32	lastPx
+
+@lengthOf(Body
+),  match
+x
+
+as
+
+    Body  { 148
+
+:
+    Ack
+, 
+171	: Quote	, 15  :
+
+Logout  , 
+}	,  } ")).
+Eval vm_compute in ("<<<M148>>>" ++ check (runes_of_ascii "packet Foo  { Logon A`a\`, a1 A
+, @lengthOf(
 //	t
 // trailing space 
-_x {
-// packet A { u8 x, }
+tag ) // trailing space 
+x_y_z
+@lengthOf( leftPad
+    ) `it's`, @tag( 255 ) match crc// @lengthOf(
+as  roots {
+""" ++ [233]%N ++ runes_of_ascii "t" ++ [233]%N ++ runes_of_ascii """	:Foo ,[ 10 , 007 //
+, // a // b
+""" ++ [233]%N ++ runes_of_ascii "t" ++ [233]%N ++ runes_of_ascii """ ,
 // c
-char[
-3
-    ] u8x @lengthOf(
-u8x ) , @calculatedFrom(""" ++ [128512]%N ++ runes_of_ascii """ // @lengthOf(
-)
-i16	Foo
-@lengthOf(	string_
-    )`doc`")).
-Eval vm_compute in ("<<<M384>>>" ++ check (runes_of_ascii "
-options{ }MetaData len {	crc Foo,
-    char[]
-x_y_z `// not a comment` ,  } options  {a1= """ ++ [128512]%N ++ runes_of_ascii """ ; _x  =
-0123456789 _x =
-true u8x
-    = ""packet"" trueish=string// " ++ [27880; 37322]%N ++ runes_of_ascii "
-;} //")).
-Eval vm_compute in ("<<<M1805>>>" ++ check (runes_of_ascii "options { trueish = ""`tick`"" ; string_= """ ++ [233]%N ++ runes_of_ascii "t" ++ [233]%N ++ runes_of_ascii """
-    // c
-    } root
-    packet body { stringy @calculatedFrom(
-""a	b"" ) `line1
-line2` , }
-packet Logon {
-    @leftPad(")).
-Eval vm_compute in ("<<<M2310>>>" ++ check (runes_of_ascii "// c
-packet x { @lengthOf( metadata ) repeat lengthOf
-,a1{
-trueish	,// c
-repeat//	t
-MetaDataX , } , zchar[
-    42	] rootA rootA // `tick` ""quote"" 'q'
-,
-    }
-")).
-Eval vm_compute in ("<<<M2370>>>" ++ check (runes_of_ascii "// c
-packet x { @lengthOf( metadata ) repeat lengthOf
-,a1{
-trueish	,// c
-repeat//	t
-MetaDataX , } , zchar[
-    42	] rootA // `tick` ""quote"" 'q'
-,
-    true
-")).
-Eval vm_compute in ("<<<M2312>>>" ++ check (runes_of_ascii "// c
-packet x { @lengthOf( metadata ) repeat ,
-lengthOf a1{
-trueish	,// c
-repeat//	t
-MetaDataX , } , zchar[
-    42	] rootA // `tick` ""quote"" 'q'
-,
-    }
-")).
-Eval vm_compute in ("<<<M2319>>>" ++ check (runes_of_ascii "// c
-packet x { @lengthOf( metadata ) repeat lengthOf
-,a1{
-trueish	,// c
-MetaDataX//	t
-repeat , } , zchar[
-    42	] rootA // `tick` ""quote"" 'q'
-,
-    }
-")).
-Eval vm_compute in ("<<<M2341>>>" ++ check (runes_of_ascii "// c
-packet x { @lengthOf( metadata ) repeat lengthOf
-,a1{
-trueish	,// c
-repeat//	t
-MetaDataX , } , zchar[
-    42	] rootA // `tick` ""quote"" 'q'
-
-    }
-")).
-Eval vm_compute in ("<<<M2156>>>" ++ check (runes_of_ascii "options{
-_x
-= true
-} options
-{ o	= /// triple
-false
-    ; chars
-= ""\n"" } packet root	Pad
-/// triple
-// packet A { u8 x, }
-{	chars
-    // a // b
-    ,}")).
-Eval vm_compute in ("<<<M2207>>>" ++ check (runes_of_ascii "options{
-_x
-= true
-} options
-{ o	= /// triple
-false
-    ; chars
-= ""\n"" } root packet	x" ++ [178]%N ++ runes_of_ascii "
-/// triple
-// packet A { u8 x, }
-{	chars
-    // a // b
-    ,}")).
-Eval vm_compute in ("<<<M2154>>>" ++ check (runes_of_ascii "options{
-_x
-= true
-} options
-{ o	= /// triple
-false
-    ; chars
-= ""\n"" }  packet	Pad
-/// triple
-// packet A { u8 x, }
-{	chars
-    // a // b
-    ,}")).
-Eval vm_compute in ("<<<M751>>>" ++ check (runes_of_ascii "packet rootA
-{ @tag( 3
-    )char[ 255]// " ++ [27880; 37322]%N ++ runes_of_ascii "
-x `two words`, @lengthOf(
-    zchar)i32 roots ,
-    u16 Foo `say ""hi""` ,
-    } // `tick` ""quote"" 'q'")).
-Eval vm_compute in ("<<<M3971>>>" ++ check (runes_of_ascii "
-
-  packet A
-
-    {
-
-Inner { match	k	as  n
-{ [ 1 
-,
-22 , 007
-	,
-    4,
-    5
-,
-
-    66
-    ,
-
-    7 ,
-	8, 9 
-,10 ] : B 
-, }
-,}
-,
-
-}
-")).
-Eval vm_compute in ("<<<M4467>>>" ++ check (runes_of_ascii "root packet _x {
-    @rightPad(' ')
-    f32 zchar @calculatedFrom(""abc"") `
-    `,
-    char[255] roots `crlf
-    line`,
-    repeat u8x,
-}")).
-Eval vm_compute in ("<<<M2183>>>" ++ check (runes_of_ascii "options{
-_x
-= true
-} options
-{ o	= /// triple
-false
-    ; chars
-= ""\n"" } root packet	Pad
-/// triple
-// packet A { u8 x, }
-{	chars")).
-Eval vm_compute in ("<<<M4566>>>" ++ check (runes_of_ascii "root 
-packet repeatCount 
-
-// c
-	// " ++ [128512]%N ++ runes_of_ascii " emoji
-
-{
-
-    msg_type 	 // `tick` ""quote"" 'q'
-		{  float64 
-lengthOf `" ++ [233]%N ++ runes_of_ascii "`	, } 
-, }
-")).
-Eval vm_compute in ("<<<M4111>>>" ++ check (runes_of_ascii "// top
-packet orderItem {
-    u8 a,
-}// c6
-
-root packet newOrder {
-    // c10
-    orderItem,// c12a
-    // c12b
-    u8 x,
-}")).
-Eval vm_compute in ("<<<M3322>>>" ++ check (runes_of_ascii "root packet matchKey { zchar[ 3 // c
-] pack @calculatedFrom( ""a	b"" ) `doc` , } options { } MetaData A { int8 msg_type , }")).
-Eval vm_compute in ("<<<M3354>>>" ++ check (runes_of_ascii "root packet matchKey { zchar[ 3 ] pack @calculatedFrom( ""a	b"" ) `doc` , } options { } MetaData A { int8 msg_type // c
-, }")).
-Eval vm_compute in ("<<<M1473>>>" ++ check (runes_of_ascii "
-packet
-    falsey { Header@calculatedFrom(""packet""  ) , char[
-    0123456789 ] packetx
-    \, } // `tick` ""quote"" 'q'")).
-Eval vm_compute in ("<<<M1444>>>" ++ check (runes_of_ascii "
-packet
-    falsey { Header@calculatedFrom(""packet""  ) , char[
-    ] 0123456789 packetx
-    , } // `tick` ""quote"" 'q'")).
-Eval vm_compute in ("<<<M2189>>>" ++ check (runes_of_ascii "options{
-_x
-= true
-} options
-{ o	= /// triple
-false
-    ; chars
-= ""\n"" } root packet	Pad
-/// triple
-// packet A {")).
-Eval vm_compute in ("<<<M2978>>>" ++ check (runes_of_ascii "packet A {
-  match k as n {
-    [""a"", ""bb"", ""c c"", ""d"", ""e"", ""f"", ""g"", ""h"", ""i"", ""j"", ""k""] : B
-    2 : C
-  },
-}")).
-Eval vm_compute in ("<<<M3003>>>" ++ check (runes_of_ascii "packet A {
-    u16 len @lengthOf(body) `a
-b`,
-    u32 crc @calculatedFrom(""CRC32"") `a
-b`,
-    string body,
-}")).
-Eval vm_compute in ("<<<M1248>>>" ++ check (runes_of_ascii "root packet Packet { @rightPad ( ' '  )
-int8
-//
-// `tick` ""quote"" 'q'
-rootA // a // b
-, char[]i8i8 , } 	 ")).
-Eval vm_compute in ("<<<M2951>>>" ++ check (runes_of_ascii "packet A {
-  match k as n {
-    [""a"", ""bb"", ""c c"", ""d"", ""e"", ""f"", ""g"", ""h"", ""i""] : B,
-    2 : C
-  },
-}")).
-Eval vm_compute in ("<<<M3603>>>" ++ check (runes_of_ascii "  packet
-    FooBar
-{
-u8
-
-a
-, }	packet
-
-foo_bar{
-u16  b	,}
-root
-packet R
-
-{
-	FooBar 
-, foo_bar,} ")).
-Eval vm_compute in ("<<<M453>>>" ++ check (runes_of_ascii "
-root packet string_ //	t
-{ @lengthOf(
-o ) @leftPad(	)
-repeat char[
-3 ] rootA
-, } // @lengthOf(")).
-Eval vm_compute in ("<<<M4129>>>" ++ check (runes_of_ascii "packet
-
-A
-
-    { B	b	`a
-    b
-  c` ,B
-    `a
-    b
-  c`
-
-,
-	repeat B bs`a
-    b
-  c` ,
-    } ")).
-Eval vm_compute in ("<<<M4043>>>" ++ check (runes_of_ascii "MetaData body {
-    i64 pack `it's`,
-}
-
-packet stringy {
-    // c
-    int16 calculatedFrom,
-}")).
-Eval vm_compute in ("<<<M582>>>" ++ check (runes_of_ascii "MetaData f32a { u32 roots , T matchKey  `tab	here` ,
-/// triple
-// packet A { u8 x, }
-} 	 ")).
-Eval vm_compute in ("<<<M3270>>>" ++ check (runes_of_ascii "MetaData
-// c
-float { float64 charz `
-` , } root packet chars { @rightPad ( '0' ) Foo , }")).
-Eval vm_compute in ("<<<M3302>>>" ++ check (runes_of_ascii "MetaData float { float64 charz `
-` , } root packet chars { @rightPad ( '0' ) Foo
-// c
-, }")).
-Eval vm_compute in ("<<<M3513>>>" ++ check (runes_of_ascii "packet chars { } packet MetaDataX { @tag( 42 ) i16 string_ , repeat x // c
-`say ""hi""` , }")).
-Eval vm_compute in ("<<<M794>>>" ++ check (runes_of_ascii "packet MetaDataX
-{ char[]
-len , // a // b
-float64 len
-@calculatedFrom( ""packet"" )
-, }
-")).
-Eval vm_compute in ("<<<M1187>>>" ++ check (runes_of_ascii "options{
-a1 = false
-x
-= ""CRC32""
-// `tick` ""quote"" 'q'
 // @lengthOf(
-A  =  42
-    } 	 ")).
-Eval vm_compute in ("<<<M3221>>>" ++ check (runes_of_ascii "packet metadata { Logon { // c
-A `" ++ [28040; 24687; 31867; 22411]%N ++ runes_of_ascii "` , tag o , } , zchar len `// not a comment` , }")).
-Eval vm_compute in ("<<<M1056>>>" ++ check (runes_of_ascii "options {o= 007 Z9_ =
-"""" Logon // a // b
-= 4294967296 //	t
-; }
-packet stringy {}
+""a	b""]
+    :x_y_z}
+    , // @lengthOf(
+}  root packet As { }	MetaData calculatedFrom // trailing space 
+{ Z9_ _x ``	,
+} MetaData tag { // " ++ [27880; 37322]%N ++ runes_of_ascii "
+string body , string options1 ,i8i8 pack, }
 ")).
-Eval vm_compute in ("<<<M3444>>>" ++ check (runes_of_ascii "packet o { repeat Logon uint8x , }
+Eval vm_compute in ("<<<M94>>>" ++ check (runes_of_ascii "options { o =
+    ' ' ; lengthOf= ""it's"" string_= """ ++ [28040; 24687]%N ++ runes_of_ascii """	;i8i8 // c
+=  uint32 } packet Logon{	Pad	@lengthOf(
+    stringy),@rightPad (	'\x00'
+) Header stringy `a\` , T { match	a1
+    as Logon{  42 :
+chars }	, },stringy {
+zchar[ 7 // trailing space 
+] x_y_z, }, uint8x BodyLength
+, repeat zchar ,	@tag( 7 ) repeat // packet A { u8 x, }
+u64 u128`" ++ [28040; 24687; 31867; 22411]%N ++ runes_of_ascii "` // packet A { u8 x, }
+, }")).
+Eval vm_compute in ("<<<M1884>>>" ++ check (runes_of_ascii "root packet roots {
+    @rightPad('0')
+    char[255] T `line1
+        line2`,
+}
+
+packet msg_type {
+    Logon {
+        f64 x_y_z ``,
+    },
+    i8 pack @lengthOf(stringy),
+    @tag(4294967296)
+    char[] msg_type,
+    stringy {
+        match x as roots {
+            1 : options1,
+            ""it's"" : BodyLength,
+        },
+    },
+}")).
+Eval vm_compute in ("<<<M1537>>>" ++ check (runes_of_ascii "options {
+    LittleEndian = true;
+    StringPrefixLenType = u8;
+    ArrayPrefixLenType = u8;
+}
+packet Ack {
+}
+root packet Quote {
+    Ack,
+    InSym94 {
+        repeat Ack,
+    },
+    u16 msgKind,
+    u16 OrderId @lengthOf(Body),
+    match msgKind as Body {
+        [110, 48] : Ack,
+    },
+}
+")).
+Eval vm_compute in ("<<<M544>>>" ++ check (runes_of_ascii "root packet tag { }  packet MetaDataX{char[007	]
 // c
-options { asx = zchar[ 3 ] stringy = '\x00' }")).
-Eval vm_compute in ("<<<M3586>>>" ++ check (runes_of_ascii "packet order_item {
+/// triple
+asx  @calculatedFrom( ""a\""b"" ""a\""b""
+) `say ""hi""`// " ++ [27880; 37322]%N ++ runes_of_ascii "
+,  @tag(4294967296 )
+    char[1//x
+] packetx @calculatedFrom(""a\""b""
+    ) ,
+// " ++ [128512]%N ++ runes_of_ascii " emoji
+// a // b
+@calculatedFrom(""" ++ [233]%N ++ runes_of_ascii "t" ++ [233]%N ++ runes_of_ascii """  ) repeat pack // " ++ [27880; 37322]%N ++ runes_of_ascii "
+,
+    } // c")).
+Eval vm_compute in ("<<<M663>>>" ++ check (runes_of_ascii "root packet tag { }  packet MetaDataX{char[007	]
+// c
+/// triple
+asx  @calculatedFrom( ""a\""b""
+) `say ""hi""`// " ++ [27880; 37322]%N ++ runes_of_ascii "
+,  @tag(4294967296 )
+    '' char[1//x
+] packetx @calculatedFrom(""a\""b""
+    ) ,
+// " ++ [128512]%N ++ runes_of_ascii " emoji
+// a // b
+@calculatedFrom(""" ++ [233]%N ++ runes_of_ascii "t" ++ [233]%N ++ runes_of_ascii """  ) repeat pack // " ++ [27880; 37322]%N ++ runes_of_ascii "
+,
+    } // c")).
+Eval vm_compute in ("<<<M591>>>" ++ check (runes_of_ascii "root packet tag { }  packet MetaDataX{char[007	]
+// c
+/// triple
+asx  @calculatedFrom( ""a\""b""
+) `say ""hi""`// " ++ [27880; 37322]%N ++ runes_of_ascii "
+,  @tag(4294967296 )
+    char[1//x
+as packetx @calculatedFrom(""a\""b""
+    ) ,
+// " ++ [128512]%N ++ runes_of_ascii " emoji
+// a // b
+@calculatedFrom(""" ++ [233]%N ++ runes_of_ascii "t" ++ [233]%N ++ runes_of_ascii """  ) repeat pack // " ++ [27880; 37322]%N ++ runes_of_ascii "
+,
+    } // c")).
+Eval vm_compute in ("<<<M595>>>" ++ check (runes_of_ascii "root packet tag { }  packet MetaDataX{char[007	]
+// c
+/// triple
+asx  @calculatedFrom( ""a\""b""
+) `say ""hi""`// " ++ [27880; 37322]%N ++ runes_of_ascii "
+,  @tag(4294967296 )
+    char[1//x
+] @calculatedFrom( packetx""a\""b""
+    ) ,
+// " ++ [128512]%N ++ runes_of_ascii " emoji
+// a // b
+@calculatedFrom(""" ++ [233]%N ++ runes_of_ascii "t" ++ [233]%N ++ runes_of_ascii """  ) repeat pack // " ++ [27880; 37322]%N ++ runes_of_ascii "
+,
+    } // c")).
+Eval vm_compute in ("<<<M636>>>" ++ check (runes_of_ascii "root packet tag { }  packet MetaDataX{char[007	]
+// c
+/// triple
+asx  @calculatedFrom( ""a\""b""
+) `say ""hi""`// " ++ [27880; 37322]%N ++ runes_of_ascii "
+,  @tag(4294967296 )
+    char[1//x
+] packetx @calculatedFrom(""a\""b""
+    ) ,
+// " ++ [128512]%N ++ runes_of_ascii " emoji
+// a // b
+@calculatedFrom(""" ++ [233]%N ++ runes_of_ascii "t" ++ [233]%N ++ runes_of_ascii """  ) int8 pack // " ++ [27880; 37322]%N ++ runes_of_ascii "
+,
+    } // c")).
+Eval vm_compute in ("<<<M73>>>" ++ check (runes_of_ascii "packet MetaDataX
+{ @calculatedFrom(
+    ""CRC32""
+    ) @tag(	255 //
+) zchar[ 007
+// c
+// trailing space 
+] Logon , } MetaData
+// " ++ [27880; 37322]%N ++ runes_of_ascii "
+// `tick` ""quote"" 'q'
+u8x{ char[0123456789
+    // @lengthOf(
+    ]	Foo , i64 x_y_z , o msg_type
+    , }
+// packet A { u8 x, }
+")).
+Eval vm_compute in ("<<<M1927>>>" ++ check (runes_of_ascii "  // top
+  MetaData // c0
+	body 	 // c1
+    {// c2
+
+i64 // c3
+	pack // c4
+		`it's`  // c5
+    ,// c6
+}	// c7
+  packet  // c8
+  stringy 	 // c9
+    	{ // c10
+    int16 	 // c11
+	  calculatedFrom// c12
+  , 	 // c13
+	} 	 // c14
+ 
+")).
+Eval vm_compute in ("<<<M9>>>" ++ check (runes_of_ascii "options
+    {
+As= ""1"" ; matchKey = 0123456789 options1
+    =
+0123456789 ;// a // b
+asx// c
+=
+    ""CRC32"" ;
+    tag =00;
+}// trailing space 
+packet
+matchKey { @calculatedFrom(
+    ""abc""	) int32 repeatCount ,
+}
+")).
+Eval vm_compute in ("<<<M2088>>>" ++ check (runes_of_ascii "root packet Foo {
+    i16 BodyLength `// not a comment`,
+    //x
+}
+
+options {
+    // packet A { u8 x, }
+}
+
+options {
+    Z9_ = false
+    msg_type = true
+    f32a = ' '
+    zchar = ""`tick`"";
+}")).
+Eval vm_compute in ("<<<M187>>>" ++ check (runes_of_ascii "root packet u128 { char[  7 ]tag@calculatedFrom(
+""\" ++ [233]%N ++ runes_of_ascii """
+    ) // " ++ [128512]%N ++ runes_of_ascii " emoji
+`" ++ [233]%N ++ runes_of_ascii "`, @rightPad ( )
+    packetx , @lengthOf(  o
+    )	lengthOf
+@lengthOf( float )
+`// not a comment`,
+}
+")).
+Eval vm_compute in ("<<<M397>>>" ++ check (runes_of_ascii "packet
+    // `tick` ""quote"" 'q'
+    crc
+// packet A { u8 x, }
+//	t
+u32
+u32 a1 ,
+    // trailing space 
+    roots
+charz //
+`two words`,	}
+    MetaData int {
+} /// triple")).
+Eval vm_compute in ("<<<M706>>>" ++ check (runes_of_ascii "root packet len // trailing space 
+{
+// " ++ [27880; 37322]%N ++ runes_of_ascii "
+//	t
+char[10
+] metadata	@lengthOf( o ) `crlf
+" ++ [8232]%N ++ runes_of_ascii "line`,
+    @rightPad
+( ' '
+) string
+    Header @calculatedFrom( ""a\\""
+    ), }
+")).
+Eval vm_compute in ("<<<M2109>>>" ++ check (runes_of_ascii "packet u128 {
+    @calculatedFrom(""a	b"")
+    repeat uint8x u128 `line1
+        line2`,
+}
+
+packet string_ {
+    @calculatedFrom(""" ++ [128512]%N ++ runes_of_ascii """)
+    uint8 Pad @lengthOf(o) `{ , }`,
+}")).
+Eval vm_compute in ("<<<M146>>>" ++ check (runes_of_ascii "root packet	BodyLength
+    {
+    // " ++ [27880; 37322]%N ++ runes_of_ascii "
+    @lengthOf( asx) repeat char[ 007
+] matchKey ,char[]
+MetaDataX @lengthOf(
+Foo) `tab	here` ,
+repeat uint64 //	t
+f32a
+, }")).
+Eval vm_compute in ("<<<M1740>>>" ++ check (runes_of_ascii "MetaData As {
+    // " ++ [128512]%N ++ runes_of_ascii " emoji
+    // @lengthOf(
+    a1 Pad,
+    zchar[00] body `// not a comment`,
+    crc uint8x `// not a comment`,
+    uint32 packetx ``,
+}")).
+Eval vm_compute in ("<<<M15>>>" ++ check (runes_of_ascii "options { matchKey
+    =
+10 } MetaData options1{
+    matchKey o `doc` , rootA tag
+,uint32 _x /// triple
+`line1
+line2`, char[] chars `say ""hi""`,  }")).
+Eval vm_compute in ("<<<M2089>>>" ++ check (runes_of_ascii "packet u128 {
+    @lengthOf(options1)
+    repeat int `" ++ [28040; 24687; 31867; 22411]%N ++ runes_of_ascii "`,
+    @calculatedFrom("""")
+    repeat f32 Z9_,
+    zchar[007] msg_type `doc`,
+}")).
+Eval vm_compute in ("<<<M1892>>>" ++ check (runes_of_ascii "packet A {
+    match k as n {
+        [
+            1, 22, ""c c"", 4, 5,
+            ""f"", 7
+        ] : B,
+        2 : C,
+    },
+}")).
+Eval vm_compute in ("<<<M1225>>>" ++ check (runes_of_ascii "root packet // c
+matchKey { zchar[ 3 ] pack @calculatedFrom( ""a	b"" ) `doc` , } options { } MetaData A { int8 msg_type , }")).
+Eval vm_compute in ("<<<M1257>>>" ++ check (runes_of_ascii "root packet matchKey { zchar[ 3 ] pack @calculatedFrom( ""a	b"" ) `doc` , } options { } MetaData // c
+A { int8 msg_type , }")).
+Eval vm_compute in ("<<<M1732>>>" ++ check (runes_of_ascii "packet A {
+    Inner {
+        u8 x `
+        `,
+        Deep {
+            u8 y `
+            `,
+        },
+    },
+}")).
+Eval vm_compute in ("<<<M2030>>>" ++ check (runes_of_ascii "packet A {
+    B b `a
+        b
+      c`,
+    B `a
+        b
+      c`,
+    repeat B bs `a
+        b
+      c`,
+}")).
+Eval vm_compute in ("<<<M896>>>" ++ check (runes_of_ascii "packet A {
+  match k as n {
+    [""a"", ""bb"", 007, ""d"", ""e"", 66, ""g"", ""h"", 9, ""j"", ""k""] : B,
+    2 : C
+  },
+}")).
+Eval vm_compute in ("<<<M289>>>" ++ check (runes_of_ascii "packet a1 {
+}
+options{
+MetaDataX = ""`tick`"" uint8x = false; f32a = zchar[	00] ; } // `tick` ""quote"" 'q'")).
+Eval vm_compute in ("<<<M18>>>" ++ check (runes_of_ascii "// packet A { u8 x, }
+options{lengthOf= 255 // " ++ [27880; 37322]%N ++ runes_of_ascii "
+; /// triple
+}packet MetaDataX {int32  body
+, }")).
+Eval vm_compute in ("<<<M1881>>>" ++ check (runes_of_ascii "packet B {
+    u8 a,
+    string s,
+}
+
+root packet P {
+    u16 L @lengthOf(B),
+    B,
+    u8 t,
+}")).
+Eval vm_compute in ("<<<M837>>>" ++ check (runes_of_ascii "packet A {
+  match k as n {
+    [""a"", ""bb"", ""c c"", ""d"", ""e"", ""f"", ""g""] : B
+    2 : C
+  },
+}")).
+Eval vm_compute in ("<<<M1184>>>" ++ check (runes_of_ascii "MetaData float { // c
+float64 charz `
+` , } root packet chars { @rightPad ( '0' ) Foo , }")).
+Eval vm_compute in ("<<<M1394>>>" ++ check (runes_of_ascii "// c
+packet chars { } packet MetaDataX { @tag( 42 ) i16 string_ , repeat x `say ""hi""` , }")).
+Eval vm_compute in ("<<<M1427>>>" ++ check (runes_of_ascii "packet chars { } packet MetaDataX { @tag( 42 ) i16 string_ , repeat x `say ""hi""`
+// c
+, }")).
+Eval vm_compute in ("<<<M1125>>>" ++ check (runes_of_ascii "packet
+// c
+metadata { Logon { A `" ++ [28040; 24687; 31867; 22411]%N ++ runes_of_ascii "` , tag o , } , zchar len `// not a comment` , }")).
+Eval vm_compute in ("<<<M1157>>>" ++ check (runes_of_ascii "packet metadata { Logon { A `" ++ [28040; 24687; 31867; 22411]%N ++ runes_of_ascii "` , tag o , } , zchar len `// not a comment` ,
+// c
+}")).
+Eval vm_compute in ("<<<M1362>>>" ++ check (runes_of_ascii "packet o { repeat Logon uint8x , } options { asx = // c
+zchar[ 3 ] stringy = '\x00' }")).
+Eval vm_compute in ("<<<M270>>>" ++ check (runes_of_ascii "MetaData _x{ } packet calculatedFrom {
+}MetaData
+_x	{i32
+    body
+    , uint8 x , }")).
+Eval vm_compute in ("<<<M1323>>>" ++ check (runes_of_ascii "MetaData body { i64 pack `it's` , } packet stringy // c
+{ int16 calculatedFrom , }")).
+Eval vm_compute in ("<<<M819>>>" ++ check (runes_of_ascii "packet A {
+  match k as n {
+    [""a"", ""bb"", 007, ""d"", ""e""] : B
+    2 : C
+  },
+}")).
+Eval vm_compute in ("<<<M1444>>>" ++ check (runes_of_ascii "packet Inner {
     u8 a,
 }
-root packet new_order {
-    order_item,
+root packet P {
+    Inner ref_obj,
     u8 x,
 }
 ")).
-Eval vm_compute in ("<<<M2266>>>" ++ check (runes_of_ascii "options
-{ } options { BodyLength= u16 Header= f64 ;  =
-    true
-    ; } // a // b")).
-Eval vm_compute in ("<<<M3419>>>" ++ check (runes_of_ascii "MetaData body { i64 pack `it's` , } packet stringy { int16 calculatedFrom
-// c
-, }")).
-Eval vm_compute in ("<<<M2246>>>" ++ check (runes_of_ascii "options
-{ } options { BodyLength= u16 = f64 ; u128 =
-    true
-    ; } // a // b")).
-Eval vm_compute in ("<<<M2886>>>" ++ check (runes_of_ascii "packet A {
-  match k as n {
-    [""a"", ""bb"", ""c c"", ""d""] : B,
-    2 : C
-  },
-}")).
-Eval vm_compute in ("<<<M2697>>>" ++ check (runes_of_ascii "( packet char[] { int32 ""`tick`"" i8 MetaData int64 zchar[ string char root")).
-Eval vm_compute in ("<<<M4007>>>" ++ check (runes_of_ascii "//
-  MetaData
-o{
-i16	zchar// a // b
-,
-char[ 	 //	t
-	00] string_
-, 
-} ")).
-Eval vm_compute in ("<<<M2878>>>" ++ check (runes_of_ascii "packet A {
-  match k as n {
-    [""a"", 22, ""c c""] : B
-    2 : C
-  },
-}")).
-Eval vm_compute in ("<<<M2663>>>" ++ check (runes_of_ascii "options { a = char[3]; b = zchar[0] c = char[] d = string e = u8 }")).
-Eval vm_compute in ("<<<M474>>>" ++ check (runes_of_ascii "MetaData
-pack {// " ++ [27880; 37322]%N ++ runes_of_ascii "
-string //	t
-float,
-char[]	options1
-, }
-")).
-Eval vm_compute in ("<<<M4563>>>" ++ check (runes_of_ascii "packet
-
-    leftPad {
-	u64 Foo , 
-	// c
-	// a // b
-    }
-
-")).
-Eval vm_compute in ("<<<M3388>>>" ++ check (runes_of_ascii "packet x { @rightPad ( ) repeat roots Logon `doc` , }
-// c
-")).
-Eval vm_compute in ("<<<M3378>>>" ++ check (runes_of_ascii "packet x { @rightPad ( ) repeat
-// c
-roots Logon `doc` , }")).
-Eval vm_compute in ("<<<M4285>>>" ++ check (runes_of_ascii "options {
-    repeatCount = int64
-    u8x = ' ';
-}
-// " ++ [27880; 37322]%N)).
-Eval vm_compute in ("<<<M3691>>>" ++ check (runes_of_ascii "options  {	Packet=
-    255;
-    f32a = '0'T =
-	'0'}
-")).
-Eval vm_compute in ("<<<M1096>>>" ++ check (runes_of_ascii "options { body= false ; }
-// `tick` ""quote"" 'q'
-")).
-Eval vm_compute in ("<<<M3467>>>" ++ check (runes_of_ascii "// top
-MetaData // c0
-o // c1
-{ // c2
-} // c3
-")).
-Eval vm_compute in ("<<<M3469>>>" ++ check (runes_of_ascii "// top
-MetaData // c0
-o // c1
-{ }
-    // c3
-")).
-Eval vm_compute in ("<<<M1838>>>" ++ check (runes_of_ascii "options { trueish = ""`tick`"" ; string_= """)).
-Eval vm_compute in ("<<<M3200>>>" ++ check (runes_of_ascii "root packet u128 { chars `it's`
-// c
-, }")).
-Eval vm_compute in ("<<<M3151>>>" ++ check (runes_of_ascii "packet A {    u8 x, // c    u8 y,}")).
-Eval vm_compute in ("<<<M3764>>>" ++ check (runes_of_ascii "  MetaData 
-M	{ x
-    y
-
-    ,
-
+Eval vm_compute in ("<<<M872>>>" ++ check (runes_of_ascii "packet A { Inner { match k as n { [1,22,007,4,5,66,7,8,9] : B, }, }, }")).
+Eval vm_compute in ("<<<M1485>>>" ++ check (runes_of_ascii "root packet P {
+    u8 s_u8,
+    repeat u8 r_u8,
+    u16 b_len,
 }
 ")).
-Eval vm_compute in ("<<<M2245>>>" ++ check (runes_of_ascii "options
-{ } options { BodyLength=")).
-Eval vm_compute in ("<<<M3006>>>" ++ check (runes_of_ascii "root packet A {
+Eval vm_compute in ("<<<M22>>>" ++ check (runes_of_ascii "options
+    // a // b
+    {
+float	= char[ 4294967296 ] ; }
+")).
+Eval vm_compute in ("<<<M1283>>>" ++ check (runes_of_ascii "packet x { @rightPad
+// c
+( ) repeat roots Logon `doc` , }")).
+Eval vm_compute in ("<<<M781>>>" ++ check (runes_of_ascii "packet A { Inner { match k as n { [1,22] : B, }, }, }")).
+Eval vm_compute in ("<<<M922>>>" ++ check (runes_of_ascii "MetaData M {
+    u8 x `a
+b`,
+    T t `a
+b`,
+}")).
+Eval vm_compute in ("<<<M1090>>>" ++ check (runes_of_ascii "packet A { char[ // a
+ 3 // b
+ ] // c
+ x, }")).
+Eval vm_compute in ("<<<M1111>>>" ++ check (runes_of_ascii "root packet u128 { chars `it's`
+// c
+, }")).
+Eval vm_compute in ("<<<M2091>>>" ++ check (runes_of_ascii "
+
+  packet o{
+
+    } // " ++ [128512]%N ++ runes_of_ascii " emoji
+ 
+")).
+Eval vm_compute in ("<<<M1979>>>" ++ check (runes_of_ascii "packet A {
+    u8 x `d" ++ [6158]%N ++ runes_of_ascii "`,// c" ++ [6158]%N ++ runes_of_ascii "
+}")).
+Eval vm_compute in ("<<<M918>>>" ++ check (runes_of_ascii "packet A {
     u8 x `a
 b`,
 }")).
-Eval vm_compute in ("<<<M2711>>>" ++ check (runes_of_ascii "jj09.>2DTk%ME=LXhml^SMAda\<;R~)")).
-Eval vm_compute in ("<<<M3107>>>" ++ check (runes_of_ascii "packet A {
- u8 x `d" ++ [8239]%N ++ runes_of_ascii "`, // c" ++ [8239]%N ++ runes_of_ascii "
-}")).
-Eval vm_compute in ("<<<M2651>>>" ++ check (runes_of_ascii "MetaData M { @tag(1) u8 x, }")).
-Eval vm_compute in ("<<<M4341>>>" ++ check (runes_of_ascii "MetaData o { 
-	// c
-    } ")).
-Eval vm_compute in ("<<<M3164>>>" ++ check (runes_of_ascii "options { a = 1 // a
- ; }")).
-Eval vm_compute in ("<<<M3930>>>" ++ check (runes_of_ascii "// c" ++ [160]%N ++ runes_of_ascii "
-packet
-A
-	{
-
-}
+Eval vm_compute in ("<<<M1165>>>" ++ check (runes_of_ascii "root // c
+packet pack { }")).
+Eval vm_compute in ("<<<M1829>>>" ++ check (runes_of_ascii "
+packet i64_
+	{	}
 
 ")).
-Eval vm_compute in ("<<<M700>>>" ++ check (runes_of_ascii "  MetaData crc { } 	 ")).
-Eval vm_compute in ("<<<M2856>>>" ++ check (runes_of_ascii "0" ++ [284; 7; 65533]%N ++ runes_of_ascii "o" ++ [65533]%N ++ runes_of_ascii ">a" ++ [65533; 65533]%N ++ runes_of_ascii "3" ++ [31; 65533]%N ++ runes_of_ascii " " ++ [6; 65533; 65533; 28; 65533; 65533]%N)).
-Eval vm_compute in ("<<<M3126>>>" ++ check (runes_of_ascii "// c 	
+Eval vm_compute in ("<<<M1002>>>" ++ check (runes_of_ascii "// c" ++ [8202]%N ++ runes_of_ascii "
 packet A {
 }")).
-Eval vm_compute in ("<<<M3085>>>" ++ check (runes_of_ascii "packet A {
-}
-// c" ++ [8192]%N)).
-Eval vm_compute in ("<<<M1690>>>" ++ check (runes_of_ascii "options { trueish")).
-Eval vm_compute in ("<<<M532>>>" ++ check (runes_of_ascii "MetaData Z9_ { }")).
-Eval vm_compute in ("<<<M2630>>>" ++ check (runes_of_ascii "packet A { } }")).
-Eval vm_compute in ("<<<M4475>>>" ++ check (runes_of_ascii "packet A {
+Eval vm_compute in ("<<<M994>>>" ++ check (runes_of_ascii "packet A {
+}// c" ++ [8192]%N)).
+Eval vm_compute in ("<<<M308>>>" ++ check (runes_of_ascii "options{
 }")).
-Eval vm_compute in ("<<<M2753>>>" ++ check (runes_of_ascii ", char[ }")).
-Eval vm_compute in ("<<<M2504>>>" ++ check (runes_of_ascii "// a
-b")).
-Eval vm_compute in ("<<<M2432>>>" ++ check (runes_of_ascii "charz")).
-Eval vm_compute in ("<<<M3134>>>" ++ check (runes_of_ascii "// c" ++ [65279]%N)).
-Eval vm_compute in ("<<<M109>>>" ++ check (runes_of_ascii "
-
-
-")).
-Eval vm_compute in ("<<<M2689>>>" ++ check (runes_of_ascii " " ++ [12]%N ++ runes_of_ascii " ")).
-Eval vm_compute in ("<<<M2477>>>" ++ check (runes_of_ascii "'")).
+Eval vm_compute in ("<<<M1000>>>" ++ check (runes_of_ascii "// c" ++ [8202]%N)).
